@@ -1,6 +1,2535 @@
-//! C19 — not built yet.
-use crate::report::{Ctx, Reporter};
+//! C19 — no peer-controlled input makes the library panic.
+//!
+//! Obs: every entry point that parses peer-controlled bytes is executed on structured mutations of
+//! valid messages and on random bytes, whole and fragmented, inside `report::guard` (the `mon`
+//! build has overflow checks and debug assertions on):
+//!
+//! * `h1`        the real HTTP/1 dispatcher on the scripted socket (`world::run::run_scenario`)
+//! * `h1codec`   `h1::Codec` decode loop + response encoding that echoes request header values +
+//!               `ws::handshake` / message helpers on every decoded head
+//! * `client`    `h1::ClientCodec` / `ClientPayloadCodec` the way awc drives them
+//! * `ws`        `ws::Codec` in both roles (decoded frames are echoed through the encoder),
+//!               `wsparse` `ws::Parser::parse`, `wshs` `ws::handshake` on header sets
+//! * `multipart` `actix_multipart::Multipart` (body + Content-Type), capped consumer
+//! * `router`    `ResourceDef::capture_match_info` on `Path<Url>` + `Path::load::<T>()`
+//! * `web`       a real `App` (scopes, NormalizePath, multi-pattern and regex resources) whose handler
+//!               runs `web::Path<T>` and `web::Query<T>` for many `T`
+//! * `query`     `web::Query::<T>::from_query` / extraction from a request
+//! * `hdr:<H>`   every typed header (`Header::parse`, `get_header`, re-serialisation)
+//! * `conninfo`  `ConnectionInfo` (Forwarded / X-Forwarded-*), `full_url`; `cookies`; `msg`
+//!               (`content_type`, `mime_type`, `encoding`, `chunked`)
+//! * `files`     `actix_files::Files` / `NamedFile` on files of length 0, 1 and 100 000 with hostile
+//!               Range / If-* headers
+//!
+//! Oracle: no panic (also none swallowed by a spawned task); every decoder loop terminates within
+//! `len + 16` produced items and every connection / stream consumer stops self-waking within its
+//! poll cap (unbounded loop); a case that does not return within the wall-clock limit is reported by
+//! a watchdog thread as class `hang`.  Output well-formedness (the `monrel` clause): bytes delivered
+//! never exceed bytes fed, a 206 carries a satisfiable Content-Range matching its body, the
+//! response stream written by the dispatcher parses.  Everything else (which error, whether a
+//! message is accepted) is counted, never judged — that is the business of C01–C18.
 
-pub fn run(_ctx: &Ctx, rep: &mut Reporter) {
-    rep.inconclusive("C19 monitor not built");
+use std::{
+    cell::RefCell,
+    collections::{BTreeSet, HashMap, VecDeque},
+    future::Future,
+    path::PathBuf,
+    pin::Pin,
+    rc::Rc,
+    sync::Mutex,
+    task::{Context, Poll},
+    time::{Duration, Instant},
+};
+
+use actix_http::{
+    body::{BodySize, MessageBody},
+    h1,
+    header::{HeaderMap, HeaderName, HeaderValue},
+    ws, HttpMessage as _, Method, RequestHead, RequestHeadType, Response, StatusCode, Uri, Version,
+};
+use actix_service::Service;
+use actix_web::{
+    dev::{Payload, ServiceResponse},
+    error::PayloadError,
+    http::header as wh,
+    test::{self, TestRequest},
+    web, App, FromRequest, HttpRequest, HttpResponse,
+};
+use bytes::{Bytes, BytesMut};
+use futures_core::Stream;
+use futures_util::StreamExt as _;
+use serde::Deserialize;
+use serde_json::{json, Value};
+use tokio_util::codec::{Decoder, Encoder};
+
+use crate::{
+    gen::h1 as gh1,
+    refmodel::{h1_resp, multipart_gen as mg, ws as rf},
+    report::{guard, panic_site, Ctx, Reporter},
+    util::{esc_short, hex, unhex, Rng},
+    world::{
+        conn::ConnCfg,
+        exec::{run_virtual, Driven},
+        run::{run_scenario, Act, Scenario},
+        svc::{Prog, ReadMode},
+    },
+};
+
+// ------------------------------------------------------------------------------------------------
+// cases, results, watchdog
+// ------------------------------------------------------------------------------------------------
+
+#[derive(Clone, Debug)]
+struct Case {
+    /// entry point ("h1", "ws", "hdr:Range", ...)
+    ep: String,
+    /// mutation class label (evidence / signature)
+    mc: String,
+    data: Vec<u8>,
+    /// second input (Content-Type of a multipart body, ...)
+    aux: Vec<u8>,
+    /// read segmentation (cut positions inside `data`)
+    cuts: Vec<usize>,
+    /// entry-point specific variant (role, max_size, handler program, ...)
+    v: u32,
+}
+
+impl Case {
+    fn new(ep: &str, mc: &str, data: Vec<u8>) -> Case {
+        Case { ep: ep.to_string(), mc: mc.to_string(), data, aux: vec![], cuts: vec![], v: 0 }
+    }
+    fn replay(&self) -> Value {
+        json!({"ep": self.ep, "mc": self.mc, "data": hex(&self.data), "aux": hex(&self.aux), "cuts": self.cuts, "v": self.v})
+    }
+    fn from_json(v: &Value) -> Case {
+        Case {
+            ep: v["ep"].as_str().unwrap_or("").to_string(),
+            mc: v["mc"].as_str().unwrap_or("replay").to_string(),
+            data: unhex(v["data"].as_str().unwrap_or("")),
+            aux: unhex(v["aux"].as_str().unwrap_or("")),
+            cuts: v["cuts"].as_array().map(|a| a.iter().filter_map(|x| x.as_u64()).map(|x| x as usize).collect()).unwrap_or_default(),
+            v: v["v"].as_u64().unwrap_or(0) as u32,
+        }
+    }
+    fn show(&self) -> String {
+        format!("ep={} mutation={} v={} cuts={:?} data({})={} aux={}", self.ep, self.mc, self.v, &self.cuts[..self.cuts.len().min(12)], self.data.len(), esc_short(&self.data, 400), esc_short(&self.aux, 120))
+    }
+    /// segments of `data` as the read schedule delivers them
+    fn segments(&self) -> Vec<&[u8]> {
+        let mut out = vec![];
+        let mut prev = 0;
+        for &c in &self.cuts {
+            if c > prev && c < self.data.len() {
+                out.push(&self.data[prev..c]);
+                prev = c;
+            }
+        }
+        out.push(&self.data[prev..]);
+        out
+    }
+}
+
+enum Res {
+    /// outcome class
+    Out(String),
+    Panic(String),
+    Fail { class: &'static str, what: String, detail: String },
+}
+
+fn fail(class: &'static str, what: impl Into<String>, detail: impl Into<String>) -> Res {
+    Res::Fail { class, what: what.into(), detail: detail.into() }
+}
+
+/// first identifier of a Debug rendering: the error variant
+fn variant<T: std::fmt::Debug>(e: &T) -> String {
+    let s = format!("{e:?}");
+    s.split(|c: char| !(c.is_alphanumeric() || c == '_')).find(|p| !p.is_empty()).unwrap_or("?").chars().take(24).collect()
+}
+
+static WATCH: Mutex<Option<(Instant, Case)>> = Mutex::new(None);
+
+fn watch_begin(c: &Case) {
+    if let Ok(mut w) = WATCH.lock() {
+        *w = Some((Instant::now(), c.clone()));
+    }
+}
+fn watch_end() {
+    if let Ok(mut w) = WATCH.lock() {
+        *w = None;
+    }
+}
+
+/// A case that does not return is an unbounded loop inside the library.  The monitor thread
+/// appends the witness to the shard log itself (the main thread is stuck and will never write
+/// again) and ends the process.
+fn start_watchdog(limit: Duration) {
+    let args: Vec<String> = std::env::args().collect();
+    let log = args.iter().position(|a| a == "--log").and_then(|i| args.get(i + 1)).cloned();
+    let Some(log) = log else { return };
+    std::thread::spawn(move || loop {
+        std::thread::sleep(Duration::from_millis(100));
+        // an unbounded loop that keeps allocating must not take the machine down first
+        let heap = crate::world::alloc::live();
+        let stuck = match WATCH.lock() {
+            Ok(w) => w.as_ref().filter(|(t, _)| t.elapsed() > limit || heap > HEAP_LIMIT).map(|(_, c)| c.clone()),
+            Err(_) => None,
+        };
+        if let Some(c) = stuck {
+            let why = if heap > HEAP_LIMIT { format!("heap grew to {} MiB inside one case", heap >> 20) } else { format!("no return within {} s", limit.as_secs()) };
+            let line = json!({"t": "viol", "class": "hang", "signature": format!("{}/{}", c.ep, c.mc.trim_end_matches('+')),
+                "detail": format!("{why} (unbounded loop): {}", c.show()), "replay": c.replay()});
+            if let Ok(mut f) = std::fs::OpenOptions::new().append(true).open(&log) {
+                use std::io::Write as _;
+                let _ = writeln!(f, "{line}");
+            }
+            std::process::exit(3);
+        }
+    });
+}
+
+const HEAP_LIMIT: usize = 3 << 30;
+
+/// Did the panic hook fire for a panic that something below us swallowed (a spawned task)?
+/// `resume_unwind` does not run the hook, so `guard` hands back whatever message is pending.
+fn swallowed_panic() -> Option<String> {
+    match guard(|| std::panic::resume_unwind(Box::new(()))) {
+        Err(m) if m != "panic (no message)" => Some(m),
+        _ => None,
+    }
+}
+
+// ------------------------------------------------------------------------------------------------
+// mutation engine
+// ------------------------------------------------------------------------------------------------
+
+const MUT_CLASSES: &[&str] = &["bitflip", "insert", "delete", "truncate", "dup-field", "oversize", "num-extreme", "non-utf8", "long-token", "repeat", "nest", "splice", "random", "special"];
+
+/// decimal extremes for every numeric position
+const NUMS: &[&str] = &[
+    "0", "1", "00000000000000000000000000000000000000001", "255", "256", "65535", "65536", "2147483647", "2147483648", "4294967295", "4294967296",
+    "9223372036854775807", "9223372036854775808", "18446744073709551615", "18446744073709551616", "99999999999999999999999999999", "-1", "+1", "1.5", "1e9", "",
+];
+/// hexadecimal extremes (chunk sizes)
+const HEXNUMS: &[&str] = &[
+    "0", "ffff", "10000", "7fffffff", "80000000", "ffffffff", "100000000", "7fffffffffffffff", "8000000000000000", "ffffffffffffffff", "10000000000000000",
+    "fffffffffffffffffffffffffff", "0000000000000000000000000000000000001", "-1", "+a", "0x10", "g", "",
+];
+const INTERESTING: &[u8] = b"\r\n\0 \t\"\\;,=%/:-*()<>[]{}?&#'@+.\x7f\x80\xff";
+const INVALID_UTF8: &[&[u8]] = &[b"\xff", b"\xc3\x28", b"\xed\xa0\x80", b"\xf8\x88\x80\x80\x80", b"\x80", b"\xc0\xaf", b"\xe2\x82", b"\xf0\x9f\x92"];
+const INVALID_PCT: &[&str] = &["%ff", "%c3%28", "%ed%a0%80", "%80", "%00", "%", "%f", "%zz", "%c0%af", "%e2%82", "%2", "%25ff", "%0a", "%0d%0a", "%2f", "%2F..%2f", "%5c", "%u1234"];
+
+const NEST: &[(&[u8], &[u8])] = &[
+    (b"(", b")"),
+    (b"\"", b"\""),
+    (b"\\\"", b"\\\""),
+    (b"\"\\", b"\""),
+    (b"[", b"]"),
+    (b"{", b"}"),
+    (b"<", b">"),
+    (b"%25", b""),
+    (b"'", b"'"),
+    (b"/..", b""),
+    (b"/.", b"/"),
+    (b"\\", b""),
+    (b"(\"", b"\")"),
+];
+
+fn digit_runs(d: &[u8], hex: bool) -> Vec<(usize, usize)> {
+    let is = |b: u8| if hex { b.is_ascii_hexdigit() } else { b.is_ascii_digit() };
+    let mut out = vec![];
+    let mut i = 0;
+    while i < d.len() {
+        if is(d[i]) {
+            let s = i;
+            while i < d.len() && is(d[i]) {
+                i += 1;
+            }
+            // a hex run is only a number when it is not part of a word
+            let word = hex && ((s > 0 && d[s - 1].is_ascii_alphabetic()) || (i < d.len() && d[i].is_ascii_alphabetic()));
+            if !word {
+                out.push((s, i));
+            }
+        } else {
+            i += 1;
+        }
+    }
+    out
+}
+
+fn splice(d: &[u8], s: usize, e: usize, with: &[u8]) -> Vec<u8> {
+    let mut o = Vec::with_capacity(d.len() + with.len());
+    o.extend_from_slice(&d[..s]);
+    o.extend_from_slice(with);
+    o.extend_from_slice(&d[e..]);
+    o
+}
+
+const DELIMS: &[&[u8]] = &[b"\r\n", b",", b";", b"&", b"/", b" ", b"=", b"\n", b"--"];
+
+/// (start, end) of the pieces of `d` between occurrences of `delim`
+fn pieces(d: &[u8], delim: &[u8]) -> Vec<(usize, usize)> {
+    let mut out = vec![];
+    let mut s = 0;
+    let mut i = 0;
+    while i + delim.len() <= d.len() {
+        if &d[i..i + delim.len()] == delim {
+            out.push((s, i));
+            i += delim.len();
+            s = i;
+        } else {
+            i += 1;
+        }
+    }
+    out.push((s, d.len()));
+    out
+}
+
+struct Mut<'a> {
+    /// percent-encoded rather than raw invalid UTF-8 (URIs)
+    pct: bool,
+    /// upper bound for the mutated length
+    max_len: usize,
+    /// another seed of the same family
+    other: &'a [u8],
+}
+
+fn mutate_once(rng: &mut Rng, d: &[u8], class: &str, m: &Mut<'_>) -> Vec<u8> {
+    let pos = |rng: &mut Rng, d: &[u8]| if d.is_empty() { 0 } else { rng.below(d.len() + 1) };
+    let mut out = match class {
+        "bitflip" => {
+            let mut o = d.to_vec();
+            if !o.is_empty() {
+                for _ in 0..rng.range(1, 4) {
+                    let i = rng.below(o.len());
+                    o[i] ^= 1 << rng.below(8);
+                }
+            }
+            o
+        }
+        "insert" => {
+            let mut o = d.to_vec();
+            for _ in 0..rng.range(1, 4) {
+                let p = pos(rng, &o);
+                let b = if rng.chance(2, 3) { *rng.pick(INTERESTING) } else { rng.next() as u8 };
+                o.insert(p, b);
+            }
+            o
+        }
+        "delete" => {
+            if d.is_empty() {
+                vec![]
+            } else {
+                let s = rng.below(d.len());
+                let e = (s + rng.range(1, 8)).min(d.len());
+                splice(d, s, e, b"")
+            }
+        }
+        "truncate" => d[..pos(rng, d).min(d.len())].to_vec(),
+        "dup-field" => {
+            let present: Vec<&&[u8]> = DELIMS.iter().filter(|dl| d.windows(dl.len()).any(|w| w == **dl)).collect();
+            if present.is_empty() {
+                [d, d].concat()
+            } else {
+                let dl = **rng.pick(&present);
+                let ps = pieces(d, dl);
+                let (s, e) = *rng.pick(&ps);
+                let mut ins = vec![];
+                for _ in 0..rng.range(1, 3) {
+                    ins.extend_from_slice(dl);
+                    ins.extend_from_slice(&d[s..e]);
+                }
+                splice(d, e, e, &ins)
+            }
+        }
+        "oversize" => {
+            let dl = *rng.pick(DELIMS);
+            let ps = pieces(d, dl);
+            let (s, e) = *rng.pick(&ps);
+            let want = *rng.pick(&[200usize, 256, 4096, 8192, 66_000, 140_000]);
+            let want = want.min(m.max_len);
+            let unit: Vec<u8> = if e > s && rng.chance(1, 2) { d[s..e].to_vec() } else { vec![*rng.pick(b"Aa0-/%.x")] };
+            let mut big = Vec::with_capacity(want + unit.len());
+            while big.len() < want {
+                big.extend_from_slice(&unit);
+            }
+            splice(d, s, e, &big)
+        }
+        "num-extreme" => {
+            let hexm = rng.chance(1, 4);
+            let runs = digit_runs(d, hexm);
+            if runs.is_empty() {
+                let p = pos(rng, d);
+                splice(d, p, p, rng.pick(NUMS).as_bytes())
+            } else {
+                let (s, e) = *rng.pick(&runs);
+                let with = if hexm { *rng.pick(HEXNUMS) } else { *rng.pick(NUMS) };
+                splice(d, s, e, with.as_bytes())
+            }
+        }
+        "non-utf8" => {
+            let mut o = d.to_vec();
+            for _ in 0..rng.range(1, 3) {
+                let p = pos(rng, &o);
+                let with: Vec<u8> = if m.pct { rng.pick(INVALID_PCT).as_bytes().to_vec() } else { rng.pick(INVALID_UTF8).to_vec() };
+                o = splice(&o, p, p, &with);
+            }
+            o
+        }
+        "long-token" => {
+            let n = (*rng.pick(&[130usize, 300, 1024, 5000, 33_000, 66_000])).min(m.max_len);
+            let c = *rng.pick(b"aZ0-_.~%/");
+            let p = pos(rng, d);
+            splice(d, p, p, &vec![c; n])
+        }
+        "repeat" => {
+            if d.is_empty() {
+                vec![b','; 100]
+            } else {
+                let s = rng.below(d.len());
+                let e = (s + rng.range(1, 24)).min(d.len());
+                let n = *rng.pick(&[3usize, 20, 97, 500, 5000]);
+                let n = n.min(m.max_len / (e - s).max(1)).max(1);
+                let mut ins = Vec::with_capacity(n * (e - s));
+                for _ in 0..n {
+                    ins.extend_from_slice(&d[s..e]);
+                }
+                splice(d, s, e, &ins)
+            }
+        }
+        "nest" => {
+            let depth = (*rng.pick(&[3usize, 10, 100, 1000, 20_000])).min(m.max_len / 4).max(1);
+            let (open, close) = *rng.pick(NEST);
+            let mut ins = Vec::with_capacity(depth * (open.len() + close.len()) + 1);
+            for _ in 0..depth {
+                ins.extend_from_slice(open);
+            }
+            ins.push(b'x');
+            if rng.chance(2, 3) {
+                for _ in 0..depth {
+                    ins.extend_from_slice(close);
+                }
+            }
+            let p = pos(rng, d);
+            splice(d, p, p, &ins)
+        }
+        "splice" => {
+            let a = pos(rng, d).min(d.len());
+            let b = pos(rng, m.other).min(m.other.len());
+            [&d[..a], &m.other[b..]].concat()
+        }
+        "random" => {
+            let n = match rng.below(4) {
+                0 => rng.below(8),
+                1 | 2 => rng.below(64),
+                _ => rng.below(600),
+            };
+            if rng.chance(1, 2) {
+                rng.bytes(n)
+            } else {
+                // random over the alphabet of the seed plus the interesting bytes
+                let alpha: Vec<u8> = if d.is_empty() { INTERESTING.to_vec() } else { [d, INTERESTING].concat() };
+                (0..n).map(|_| *rng.pick(&alpha)).collect()
+            }
+        }
+        _ => d.to_vec(),
+    };
+    if out.len() > m.max_len {
+        out.truncate(m.max_len);
+    }
+    out
+}
+
+/// One to three stacked mutations; the label is the first (primary) class.
+fn mutate(rng: &mut Rng, seed: &[u8], m: &Mut<'_>) -> (Vec<u8>, String) {
+    if rng.chance(1, 25) {
+        return (seed.to_vec(), "none".into());
+    }
+    let first = *rng.pick(&MUT_CLASSES[..13]);
+    let mut d = mutate_once(rng, seed, first, m);
+    let extra = match rng.below(10) {
+        0..=5 => 0,
+        6..=8 => 1,
+        _ => 2,
+    };
+    for _ in 0..extra {
+        let c = *rng.pick(&["bitflip", "insert", "delete", "truncate", "num-extreme", "non-utf8", "dup-field"]);
+        d = mutate_once(rng, &d, c, m);
+    }
+    (d, if extra == 0 { first.to_string() } else { format!("{first}+") })
+}
+
+/// Read segmentation: whole, all-1-byte (short inputs), random cuts.
+fn gen_cuts(rng: &mut Rng, len: usize) -> Vec<usize> {
+    match rng.below(4) {
+        0 | 1 => vec![],
+        2 if len <= 700 => (1..len).collect(),
+        _ => rng.cuts(len, 8),
+    }
+}
+
+fn cut_class(c: &Case) -> &'static str {
+    if c.cuts.is_empty() {
+        "whole"
+    } else if c.cuts.len() + 1 >= c.data.len() {
+        "bytewise"
+    } else {
+        "cuts"
+    }
+}
+
+// ------------------------------------------------------------------------------------------------
+// sanitisers: what the transport below the entry point guarantees
+// ------------------------------------------------------------------------------------------------
+
+/// Header values reach typed parsers only after httparse accepted them: no CTL except HTAB.
+fn clean_value(v: &[u8]) -> HeaderValue {
+    let t: Vec<u8> = v.iter().map(|&b| if (b < 0x20 && b != b'\t') || b == 0x7f { b' ' } else { b }).collect();
+    // httparse/the decoder trim optional whitespace around the value
+    let s = t.iter().position(|b| *b != b' ' && *b != b'\t').unwrap_or(t.len());
+    let e = t.iter().rposition(|b| *b != b' ' && *b != b'\t').map(|i| i + 1).unwrap_or(s);
+    HeaderValue::from_bytes(&t[s..e]).unwrap_or_else(|_| HeaderValue::from_static(""))
+}
+
+/// Lines (LF separated) of a mutated multi-line header value.
+fn value_lines(d: &[u8]) -> Vec<HeaderValue> {
+    d.split(|b| *b == b'\n').take(12).map(clean_value).collect()
+}
+
+/// A request target reaches the router only as a valid `http::Uri`.
+fn clean_uri(d: &[u8]) -> String {
+    // http::Uri accepts at most 65 534 bytes; longer targets are refused by the decoder
+    let lim = if d.first() == Some(&b'/') { 65_534 } else { 65_533 };
+    let d = if d.len() > lim { &d[..lim] } else { d };
+    let mut s = String::with_capacity(d.len() + 1);
+    if d.first() != Some(&b'/') {
+        s.push('/');
+    }
+    s.push_str(&String::from_utf8_lossy(d));
+    if Uri::try_from(s.as_str()).is_ok() {
+        return s;
+    }
+    let mut t = String::with_capacity(d.len() * 3 + 1);
+    if d.first() != Some(&b'/') {
+        t.push('/');
+    }
+    let mut seen_q = false;
+    for &b in d {
+        let keep = b.is_ascii_alphanumeric() || b"-._~!$&'()*+,;=:@/%".contains(&b) || (b == b'?' && !seen_q);
+        if b == b'?' {
+            seen_q = true;
+        }
+        if keep {
+            t.push(b as char);
+        } else {
+            t.push_str(&format!("%{b:02X}"));
+        }
+    }
+    if t.len() > 65_534 {
+        t.truncate(65_534);
+        while t.ends_with('%') || t[..t.len() - 1].ends_with('%') {
+            t.pop();
+        }
+    }
+    if Uri::try_from(t.as_str()).is_ok() {
+        t
+    } else {
+        "/".into()
+    }
+}
+
+/// `URI LF name: value LF name: value ...` → (uri, headers) with everything constructible
+fn parse_reqtext(d: &[u8]) -> (String, Vec<(HeaderName, HeaderValue)>) {
+    let mut lines = d.split(|b| *b == b'\n');
+    let uri = clean_uri(lines.next().unwrap_or(b"/"));
+    let mut hs = vec![];
+    for l in lines.take(24) {
+        let Some(c) = l.iter().position(|b| *b == b':') else { continue };
+        let name: Vec<u8> = l[..c].iter().filter(|b| b.is_ascii_alphanumeric() || **b == b'-' || **b == b'_').copied().take(64).collect();
+        let Ok(n) = HeaderName::from_bytes(&name) else { continue };
+        hs.push((n, clean_value(&l[c + 1..])));
+    }
+    (uri, hs)
+}
+
+
+// ------------------------------------------------------------------------------------------------
+// request objects without the per-request leak of the test utilities
+// ------------------------------------------------------------------------------------------------
+
+// `TestRequest::to_http_request()` gives every request its own `AppInitServiceState`; on drop the
+// request parks itself in that state's pool, which it also owns: a cycle, ~4 KB leaked per
+// request.  Millions of cases would turn that into gigabytes (and LeakSanitizer reports), so the
+// extractor entry points re-use one long-lived request per thread and rewrite its head.
+thread_local! {
+    static SREQ: RefCell<[Option<actix_web::dev::ServiceRequest>; 2]> = const { RefCell::new([None, None]) };
+}
+
+/// Run `f` on an `HttpRequest` with the given target, headers and peer address.  `kind` 1 carries
+/// a `MultipartConfig` with a 4 KiB buffer limit as app data.
+fn with_req<R>(kind: usize, uri: &str, headers: Vec<(HeaderName, HeaderValue)>, peer: bool, f: impl FnOnce(&HttpRequest) -> R) -> R {
+    let mut sr = SREQ.with(|c| c.borrow_mut()[kind].take()).unwrap_or_else(|| {
+        let tr = TestRequest::default();
+        if kind == 1 { tr.app_data(actix_multipart::MultipartConfig::default().buffer_limit(4096)) } else { tr }.to_srv_request()
+    });
+    let u = Uri::try_from(uri).unwrap_or_default();
+    {
+        let head = sr.head_mut();
+        head.headers.clear();
+        for (n, v) in headers {
+            head.headers.append(n, v);
+        }
+        head.peer_addr = if peer { Some("192.0.2.1:4000".parse().unwrap()) } else { None };
+        head.uri = u.clone();
+    }
+    sr.match_info_mut().get_mut().update(&u);
+    sr.match_info_mut().reset();
+    sr.request().extensions_mut().clear();
+    let r = f(sr.request());
+    // only reached when `f` did not panic; after a panic the next call builds a fresh request
+    SREQ.with(|c| c.borrow_mut()[kind] = Some(sr));
+    r
+}
+
+/// A bare message for the typed-header parsers (`Header::parse` takes any `HttpMessage`).
+fn msg_with(name: &HeaderName, lines: Vec<HeaderValue>) -> actix_http::Request {
+    let mut m = actix_http::Request::new();
+    for v in lines {
+        m.headers_mut().append(name.clone(), v);
+    }
+    m
+}
+
+/// LeakSanitizer: `ResourceDef::parse` leaks its capture names on purpose (documented in the
+/// source); everything else stays checked.
+#[no_mangle]
+pub extern "C" fn __lsan_default_suppressions() -> *const std::ffi::c_char {
+    c"leak:actix-router/src/resource.rs\nleak:actix_router::resource::ResourceDef\n".as_ptr()
+}
+
+// ------------------------------------------------------------------------------------------------
+// entry points that need no runtime: typed headers, ConnectionInfo, cookies, message helpers
+// ------------------------------------------------------------------------------------------------
+
+fn ready<F: Future>(f: F) -> Option<F::Output> {
+    let mut f = Box::pin(f);
+    let w = futures_util::task::noop_waker();
+    let mut cx = Context::from_waker(&w);
+    match f.as_mut().poll(&mut cx) {
+        Poll::Ready(v) => Some(v),
+        Poll::Pending => None,
+    }
+}
+
+fn hdr_outcome<H: wh::Header>(req: &actix_http::Request) -> String {
+    let got = req.get_header::<H>().is_some();
+    match H::parse(req) {
+        Ok(h) => match h.try_into_value() {
+            Ok(v) => {
+                // what the library would send back must again be a header it can read
+                let r2 = msg_with(&H::name(), vec![v]);
+                let again = H::parse(&r2).is_ok();
+                format!("ok{}{}", if got { "" } else { "/get-none" }, if again { "" } else { "/no-roundtrip" })
+            }
+            Err(_) => "ok/unserialisable".into(),
+        },
+        Err(e) => format!("err:{}", variant(&e)),
+    }
+}
+
+type HdrFn = fn(&actix_http::Request) -> String;
+
+/// What the framework and applications do with a parsed header: the derived computations.
+fn hdr_use(name: &str, req: &actix_http::Request) -> &'static str {
+    use wh::Header as _;
+    match name {
+        "Accept" => {
+            if let Ok(a) = wh::Accept::parse(req) {
+                let _ = (a.preference(), a.ranked().len(), a.to_string().len());
+                return "+use";
+            }
+        }
+        "AcceptEncoding" => {
+            if let Ok(a) = wh::AcceptEncoding::parse(req) {
+                let sup = [wh::Encoding::gzip(), wh::Encoding::brotli(), wh::Encoding::identity()];
+                let _ = (a.preference().is_some(), a.ranked().len(), a.negotiate(sup.iter()).is_some(), a.negotiate([].iter()).is_some(), a.to_string().len());
+                return "+use";
+            }
+        }
+        "AcceptLanguage" => {
+            if let Ok(a) = wh::AcceptLanguage::parse(req) {
+                let _ = (a.preference(), a.ranked().len(), a.to_string().len());
+                return "+use";
+            }
+        }
+        "AcceptCharset" => {
+            if let Ok(a) = wh::AcceptCharset::parse(req) {
+                let _ = a.to_string().len();
+                return "+use";
+            }
+        }
+        "Range" => {
+            if let Ok(r) = wh::Range::parse(req) {
+                let _ = r.to_string().len();
+                if let wh::Range::Bytes(specs) = &r {
+                    for sp in specs.iter().take(64) {
+                        for len in [0u64, 1, 2, 100_000, u64::MAX - 1, u64::MAX] {
+                            if let Some((a, b)) = sp.to_satisfiable_range(len) {
+                                if a > b || b >= len {
+                                    return "bad-satisfiable-range";
+                                }
+                            }
+                        }
+                    }
+                }
+                return "+use";
+            }
+        }
+        "ContentDisposition" => {
+            if let Ok(cd) = wh::ContentDisposition::parse(req) {
+                let _ = (cd.get_name().map(str::len), cd.get_filename().map(str::len), cd.get_filename_ext().map(|e| e.value.len()), cd.get_unknown("size").map(str::len), cd.get_unknown_ext("x").is_some());
+                let _ = (cd.is_inline(), cd.is_attachment(), cd.is_form_data(), cd.is_ext("x"), cd.to_string().len());
+                return "+use";
+            }
+        }
+        "CacheControl" => {
+            if let Ok(cc) = wh::CacheControl::parse(req) {
+                let _ = (cc.0.len(), cc.to_string().len());
+                return "+use";
+            }
+        }
+        "ContentRange" => {
+            if let Ok(cr) = wh::ContentRange::parse(req) {
+                let _ = cr.to_string().len();
+                return "+use";
+            }
+        }
+        "IfRange" => {
+            if let Ok(v) = wh::IfRange::parse(req) {
+                let _ = v.to_string().len();
+                return "+use";
+            }
+        }
+        "ContentType" => {
+            if let Ok(v) = wh::ContentType::parse(req) {
+                let _ = (v.0.type_().as_str().len(), v.0.params().count(), v.0.get_param("charset").is_some(), v.to_string().len());
+                return "+use";
+            }
+        }
+        _ => {}
+    }
+    ""
+}
+
+fn typed_headers() -> Vec<(&'static str, HeaderName, HdrFn, &'static [&'static str])> {
+    const DATES: &[&str] = &["Sun, 06 Nov 1994 08:49:37 GMT", "Sunday, 06-Nov-94 08:49:37 GMT", "Sun Nov  6 08:49:37 1994", "Thu, 01 Jan 1970 00:00:00 GMT", "Fri, 31 Dec 9999 23:59:59 GMT"];
+    const TAGS: &[&str] = &["*", "\"xyzzy\"", "W/\"xyzzy\"", "\"xyzzy\", \"r2d2xxxx\", W/\"c3piozzzz\"", "\"\"", "W/\"\", \"a\""];
+    vec![
+        ("Accept", wh::ACCEPT, hdr_outcome::<wh::Accept> as HdrFn, &["text/html, application/xhtml+xml;q=0.9, */*;q=0.8", "audio/*; q=0.2, audio/basic", "text/plain; charset=utf-8; q=0.5", "*/*"]),
+        ("AcceptCharset", wh::ACCEPT_CHARSET, hdr_outcome::<wh::AcceptCharset> as HdrFn, &["iso-8859-5, unicode-1-1;q=0.8", "utf-8", "*;q=0.1, us-ascii"]),
+        ("AcceptEncoding", wh::ACCEPT_ENCODING, hdr_outcome::<wh::AcceptEncoding> as HdrFn, &["gzip;q=1.0, identity; q=0.5, *;q=0", "br, zstd;q=0.999, deflate", "compress, gzip", "*"]),
+        ("AcceptLanguage", wh::ACCEPT_LANGUAGE, hdr_outcome::<wh::AcceptLanguage> as HdrFn, &["da, en-gb;q=0.8, en;q=0.7", "en-US", "*", "zh-Hant-TW;q=0.3, x-private"]),
+        ("Allow", wh::ALLOW, hdr_outcome::<wh::Allow> as HdrFn, &["GET, HEAD, PUT", "OPTIONS", "GET,POST,M-SEARCH"]),
+        ("CacheControl", wh::CACHE_CONTROL, hdr_outcome::<wh::CacheControl> as HdrFn, &["no-cache, max-age=3600, private", "s-maxage=10, foo=\"bar\", min-fresh=0", "max-stale=4294967295, no-store", "public, must-revalidate, ext"]),
+        (
+            "ContentDisposition",
+            wh::CONTENT_DISPOSITION,
+            hdr_outcome::<wh::ContentDisposition> as HdrFn,
+            &[
+                "attachment; filename=\"foo.txt\"",
+                "form-data; name=\"field\"; filename=\"a \\\"b\\\" c.png\"",
+                "attachment; filename*=UTF-8''%e2%82%ac%20rates; filename=\"x\"",
+                "inline",
+                "attachment; filename*=iso-8859-1'en'%A3%20rates; size=12; unknown=token",
+                "form-data; name=upload; filename=file.bin",
+            ],
+        ),
+        ("ContentLanguage", wh::CONTENT_LANGUAGE, hdr_outcome::<wh::ContentLanguage> as HdrFn, &["en, fr-CA", "mi", "de-DE;q=0.5"]),
+        ("ContentLength", wh::CONTENT_LENGTH, hdr_outcome::<wh::ContentLength> as HdrFn, &["1234", "0", "18446744073709551615"]),
+        ("ContentRange", wh::CONTENT_RANGE, hdr_outcome::<wh::ContentRange> as HdrFn, &["bytes 0-499/1234", "bytes */1234", "bytes 0-499/*", "custom 1-2/3", "bytes 500-999/1000"]),
+        ("ContentType", wh::CONTENT_TYPE, hdr_outcome::<wh::ContentType> as HdrFn, &["text/html; charset=utf-8", "multipart/form-data; boundary=\"x y\"", "application/json", "image/svg+xml;a=b;c=\"d;e\""]),
+        ("Date", wh::DATE, hdr_outcome::<wh::Date> as HdrFn, DATES),
+        ("ETag", wh::ETAG, hdr_outcome::<wh::ETag> as HdrFn, &["\"xyzzy\"", "W/\"xyzzy\"", "\"\"", "W/\"a b\""]),
+        ("Expires", wh::EXPIRES, hdr_outcome::<wh::Expires> as HdrFn, DATES),
+        ("IfMatch", wh::IF_MATCH, hdr_outcome::<wh::IfMatch> as HdrFn, TAGS),
+        ("IfModifiedSince", wh::IF_MODIFIED_SINCE, hdr_outcome::<wh::IfModifiedSince> as HdrFn, DATES),
+        ("IfNoneMatch", wh::IF_NONE_MATCH, hdr_outcome::<wh::IfNoneMatch> as HdrFn, TAGS),
+        ("IfRange", wh::IF_RANGE, hdr_outcome::<wh::IfRange> as HdrFn, &["\"xyzzy\"", "W/\"x\"", "Sun, 06 Nov 1994 08:49:37 GMT", "Sunday, 06-Nov-94 08:49:37 GMT"]),
+        ("IfUnmodifiedSince", wh::IF_UNMODIFIED_SINCE, hdr_outcome::<wh::IfUnmodifiedSince> as HdrFn, DATES),
+        ("LastModified", wh::LAST_MODIFIED, hdr_outcome::<wh::LastModified> as HdrFn, DATES),
+        ("Range", wh::RANGE, hdr_outcome::<wh::Range> as HdrFn, &["bytes=0-499", "bytes=500-999,-5,7-", "bytes=-500", "bytes=9500-", "other=1-2", "bytes=0-0,-1", "bytes= 1 - 2 , 3-"]),
+    ]
+}
+
+thread_local! {
+    static HDRS: Vec<(&'static str, HeaderName, HdrFn, &'static [&'static str])> = typed_headers();
+}
+
+fn exec_hdr(c: &Case) -> Res {
+    let name = &c.ep[4..];
+    let found = HDRS.with(|h| h.iter().find(|x| x.0 == name).map(|x| (x.1.clone(), x.2)));
+    let Some((hn, f)) = found else { return Res::Out("unknown-header".into()) };
+    let lines = value_lines(&c.data);
+    // ContentLength asserts two preconditions its source names ("decoder prevents this case",
+    // "decoder prevents multiple CL headers"): the h1 decoder (server and client side) refuses a
+    // Content-Length that starts with '+' or is repeated before a typed parser can see it
+    if name == "ContentLength" && (lines.len() != 1 || lines[0].as_bytes().starts_with(b"+")) {
+        return Res::Out("refused-by-transport-decoder".into());
+    }
+    let n = lines.len();
+    let req = msg_with(&hn, lines);
+    match guard(|| (f(&req), hdr_use(name, &req))) {
+        Ok((_, "bad-satisfiable-range")) => fail("ill-formed-output", "hdr:Range/to_satisfiable_range", "to_satisfiable_range returned a range outside the representation"),
+        Ok((o, u)) => Res::Out(format!("{o}{}{u}", if n > 1 { "/multi" } else { "" })),
+        Err(p) => Res::Panic(p),
+    }
+}
+
+const CONNINFO_SEEDS: &[&str] = &[
+    "/\nForwarded: for=192.0.2.60;proto=http;by=203.0.113.43;host=example.com",
+    "/\nForwarded: for=\"[2001:db8:cafe::17]:4711\", for=198.51.100.17\nHost: a.test:8080",
+    "/x\nX-Forwarded-For: 203.0.113.195, 2001:db8::1, 150.172.238.178\nX-Forwarded-Host: id42.example-cdn.com\nX-Forwarded-Proto: https",
+    "/\nForwarded: For=\"_gazonk\";Proto=https ; Host = \"h\" \nForwarded: for=unknown",
+    "http://abs.example:81/p?q\nHost: rust-lang.org",
+    "/\nForwarded: for=[::1]:80, for=a;;;=,=;for=;host=;proto=",
+];
+
+fn exec_conninfo(c: &Case) -> Res {
+    let (uri, hs) = parse_reqtext(&c.data);
+    let peer = c.v & 1 == 1;
+    let r = guard(|| with_req(0, &uri, hs, peer, |req| {
+        let ci = req.connection_info();
+        let a = ci.realip_remote_addr().map(|s| s.len()).unwrap_or(0);
+        let shape = format!("host{}/scheme-{}/{}", if ci.host().is_empty() { "-empty" } else { "" }, if matches!(ci.scheme(), "http" | "https") { "std" } else { "other" }, if a == 0 { "noip" } else { "ip" });
+        drop(ci);
+        // HttpRequest::full_url is left out: it documents a panic for a malformed host (like url_for)
+        let fu = "-";
+        let ext = ready(actix_web::dev::ConnectionInfo::extract(req)).is_some();
+        let pa = ready(actix_web::dev::PeerAddr::extract(req)).map(|r| r.is_ok()).unwrap_or(false);
+        format!("{shape}/{fu}/{}{}", if ext { "x" } else { "-" }, if pa { "p" } else { "" })
+    }));
+    match r {
+        Ok(o) => Res::Out(o),
+        Err(p) => Res::Panic(p),
+    }
+}
+
+const COOKIE_SEEDS: &[&str] = &["a=b", "sid=31d4d96e407aad42; lang=en-US", "name=%E2%82%AC%20x; other=\"quoted value\"", "a=b\nc=d; e=f", "=noname; ; ;x", "k=v; Path=/; Secure; HttpOnly; Max-Age=10"];
+
+fn exec_cookies(c: &Case) -> Res {
+    let hs: Vec<(HeaderName, HeaderValue)> = value_lines(&c.data).into_iter().map(|v| (wh::COOKIE, v)).collect();
+    let r = guard(|| with_req(0, "/", hs, false, |req| {
+        let a = match req.cookies() {
+            Ok(v) => format!("ok{}", v.len().min(3)),
+            Err(e) => format!("err:{}", variant(&e)),
+        };
+        let b = match req.cookies_raw() {
+            Ok(v) => format!("raw{}", v.len().min(3)),
+            Err(e) => format!("rawerr:{}", variant(&e)),
+        };
+        let names = ["a", "sid", "name", "", "k"];
+        let hit = names.iter().filter(|n| req.cookie(n).is_some() || req.cookie_raw(n).is_some()).count();
+        format!("{a}/{b}/{}", if hit > 0 { "hit" } else { "miss" })
+    }));
+    match r {
+        Ok(o) => Res::Out(o),
+        Err(p) => Res::Panic(p),
+    }
+}
+
+const MSG_SEEDS: &[&str] = &[
+    "/\nContent-Type: text/html; charset=ISO-8859-2\nTransfer-Encoding: gzip, chunked",
+    "/\nContent-Type: application/json\nTransfer-Encoding: chunked\nConnection: keep-alive, Upgrade\nUpgrade: websocket",
+    "/\nContent-Type: multipart/form-data; boundary=----x\nContent-Encoding: br\nExpect: 100-continue",
+    "/\nContent-Type: text/plain; charset=\"utf-8\"; x=y\nContent-Encoding: zstd, gzip\nConnection: close",
+];
+
+fn exec_msg(c: &Case) -> Res {
+    let (uri, hs) = parse_reqtext(&c.data);
+    let r = guard(|| with_req(0, &uri, hs, false, |req| {
+        let ct = req.content_type().len().min(1);
+        let mt = match req.mime_type() {
+            Ok(Some(_)) => "mime",
+            Ok(None) => "nomime",
+            Err(_) => "mime-err",
+        };
+        let enc = match req.encoding() {
+            Ok(_) => "enc",
+            Err(_) => "enc-err",
+        };
+        let ch = match req.chunked() {
+            Ok(true) => "chunked",
+            Ok(false) => "plain",
+            Err(_) => "te-err",
+        };
+        let ce = match <actix_http::ContentEncoding as wh::Header>::parse(req) {
+            Ok(_) => "ce",
+            Err(_) => "ce-err",
+        };
+        let h = req.head();
+        format!("{mt}/{ch}/ct{ct}/{enc}/{ce}/{:?}/{}", h.connection_type(), if h.upgrade() { "up" } else { "noup" })
+    }));
+    match r {
+        Ok(o) => Res::Out(o),
+        Err(p) => Res::Panic(p),
+    }
+}
+
+// ------------------------------------------------------------------------------------------------
+// WebSocket: handshake on header sets, codec in both roles, raw parser
+// ------------------------------------------------------------------------------------------------
+
+const WSHS_SEEDS: &[&str] = &[
+    "/chat\nHost: server.example.com\nUpgrade: websocket\nConnection: Upgrade\nSec-WebSocket-Key: dGhlIHNhbXBsZSBub25jZQ==\nSec-WebSocket-Version: 13",
+    "/\nUpgrade: WebSocket, h2c\nConnection: keep-alive, upgrade\nSec-WebSocket-Key: x3JJHMbDL1EzLkh9GBhXDw==\nSec-WebSocket-Version: 8\nSec-WebSocket-Protocol: chat, superchat",
+    "/\nUpgrade: websocket\nConnection: upgrade\nSec-WebSocket-Key: \nSec-WebSocket-Version: 13, 7",
+];
+
+fn exec_wshs(c: &Case) -> Res {
+    let (uri, hs) = parse_reqtext(&c.data);
+    let mut head = RequestHead::default();
+    head.method = if c.v & 1 == 1 { Method::POST } else { Method::GET };
+    head.uri = Uri::try_from(uri.as_str()).unwrap_or_default();
+    for (n, v) in hs {
+        head.headers_mut().append(n, v);
+    }
+    let r = guard(|| {
+        let v = ws::verify_handshake(&head);
+        let resp = ws::handshake(&head).map(|mut b| b.finish());
+        // handshake_response() alone requires a verified request (it unwraps the key): not called
+        let key_len = resp.as_ref().ok().and_then(|r| r.headers().get("sec-websocket-accept").map(|v| v.len())).unwrap_or(0);
+        match (v, resp) {
+            (Ok(()), Ok(r)) => format!("ok:{}:{key_len}", r.status().as_u16()),
+            (Err(e), Err(_)) => format!("err:{}:{key_len}", variant(&e)),
+            _ => "verify-and-handshake-disagree".into(),
+        }
+    });
+    match r {
+        Ok(o) if o == "verify-and-handshake-disagree" => fail("ill-formed-output", "wshs", "verify_handshake and handshake disagree"),
+        Ok(o) => Res::Out(o),
+        Err(p) => Res::Panic(p),
+    }
+}
+
+/// `max_size` is configuration: the parser reserves up to that much on a peer's announcement, so an
+/// application that configures usize::MAX has asked for the allocation failure it gets
+const WS_SIZES: [Option<usize>; 6] = [None, Some(0), Some(125), Some(65_536), Some(1 << 20), Some(126)];
+
+fn ws_codec(v: u32) -> (ws::Codec, bool, usize) {
+    let server = v & 1 == 0;
+    let ms = WS_SIZES[((v >> 1) as usize) % WS_SIZES.len()];
+    let mut c = ws::Codec::new();
+    if let Some(m) = ms {
+        c = c.max_size(m);
+    }
+    if !server {
+        c = c.client_mode();
+    }
+    (c, server, ms.unwrap_or(65_536))
+}
+
+/// Decode loop shared by all `tokio_util` decoders: after every segment call `decode` until it asks
+/// for more input.  `on_item` returns false to stop (consumer's choice).  Err(Res) is a verdict.
+fn decode_loop<D: Decoder>(
+    dec: &mut D,
+    c: &Case,
+    buf: &mut BytesMut,
+    mut on_item: impl FnMut(&mut D, D::Item, &mut BytesMut) -> Result<bool, Res>,
+) -> Result<(u64, Option<D::Error>), Res> {
+    let cap = c.data.len() as u64 + 16;
+    let mut items = 0u64;
+    let mut idle = 0u64;
+    for seg in c.segments() {
+        buf.extend_from_slice(seg);
+        loop {
+            let before = buf.len();
+            match guard(|| dec.decode(buf)) {
+                Err(p) => return Err(Res::Panic(p)),
+                Ok(Err(e)) => return Ok((items, Some(e))),
+                Ok(Ok(Some(it))) => {
+                    items += 1;
+                    if items > cap {
+                        return Err(fail("unbounded-loop", "decode/items", format!("decoder produced {items} items from {} input bytes without running out of input", c.data.len())));
+                    }
+                    if !on_item(dec, it, buf)? {
+                        return Ok((items, None));
+                    }
+                }
+                Ok(Ok(None)) => {
+                    if buf.len() == before {
+                        break;
+                    }
+                    // "need more input" while the buffer changed: progress claimed; call again
+                    idle += 1;
+                    if idle > cap {
+                        return Err(fail("unbounded-loop", "decode/none", format!("decoder kept returning Ok(None) while changing its buffer ({idle} times, {} input bytes)", c.data.len())));
+                    }
+                }
+            }
+        }
+    }
+    Ok((items, None))
+}
+
+fn exec_ws(c: &Case) -> Res {
+    let (mut codec, _server, _ms) = ws_codec(c.v);
+    let mut buf = BytesMut::new();
+    let mut delivered = 0usize;
+    let mut kinds = BTreeSet::new();
+    let mut out = BytesMut::new();
+    let r = decode_loop(&mut codec, c, &mut buf, |codec, f, _| {
+        let (k, n, echo) = match f {
+            ws::Frame::Text(b) => ("text", b.len(), Some(ws::Message::Binary(b))),
+            ws::Frame::Binary(b) => ("binary", b.len(), Some(ws::Message::Binary(b))),
+            ws::Frame::Continuation(i) => {
+                let n = match &i {
+                    ws::Item::FirstText(b) | ws::Item::FirstBinary(b) | ws::Item::Continue(b) | ws::Item::Last(b) => b.len(),
+                };
+                ("cont", n, None)
+            }
+            ws::Frame::Ping(b) => ("ping", b.len(), Some(ws::Message::Pong(b))),
+            ws::Frame::Pong(b) => ("pong", b.len(), None),
+            ws::Frame::Close(r) => ("close", 0, Some(ws::Message::Close(r))),
+        };
+        kinds.insert(k);
+        delivered += n;
+        if let Some(m) = echo {
+            out.clear();
+            match guard(|| codec.encode(m, &mut out)) {
+                Err(p) => return Err(Res::Panic(p)),
+                Ok(_) => {}
+            }
+            if out.len() < n {
+                return Err(fail("ill-formed-output", "ws/echo-short", format!("echo of a {n}-byte payload encoded into {} bytes", out.len())));
+            }
+        }
+        Ok(true)
+    });
+    match r {
+        Err(res) => res,
+        Ok((items, err)) => {
+            if delivered > c.data.len() {
+                return fail("ill-formed-output", "ws/delivered-more-than-fed", format!("{delivered} payload bytes delivered from {} input bytes", c.data.len()));
+            }
+            let k: Vec<&str> = kinds.into_iter().collect();
+            Res::Out(format!("{}:{}:{}", match &err { Some(e) => format!("err-{}", variant(e)), None => "open".into() }, items.min(3), k.join("+")))
+        }
+    }
+}
+
+fn exec_wsparse(c: &Case) -> Res {
+    let (_, server, ms) = ws_codec(c.v);
+    let mut buf = BytesMut::new();
+    let cap = c.data.len() + 16;
+    let mut n = 0;
+    let mut last = "open".to_string();
+    'o: for seg in c.segments() {
+        buf.extend_from_slice(seg);
+        loop {
+            let before = buf.len();
+            match guard(|| ws::Parser::parse(&mut buf, server, ms)) {
+                Err(p) => return Res::Panic(p),
+                Ok(Err(e)) => {
+                    last = format!("err-{}", variant(&e));
+                    break 'o;
+                }
+                Ok(Ok(Some((_fin, op, pl)))) => {
+                    n += 1;
+                    if let (ws::OpCode::Close, Some(p)) = (op, &pl) {
+                        if let Err(p) = guard(|| ws::Parser::parse_close_payload(p)) {
+                            return Res::Panic(p);
+                        }
+                    }
+                    if n > cap {
+                        return fail("unbounded-loop", "wsparse/items", format!("{n} frames from {} bytes", c.data.len()));
+                    }
+                }
+                Ok(Ok(None)) => {
+                    if buf.len() == before {
+                        break;
+                    }
+                    n += 1;
+                    if n > cap {
+                        return fail("unbounded-loop", "wsparse/none", "Ok(None) with a changing buffer for ever");
+                    }
+                }
+            }
+        }
+    }
+    Res::Out(format!("{last}:{}", n.min(3)))
+}
+
+fn ws_frame(rng: &mut Rng, server: bool, in_frag: &mut bool) -> Vec<u8> {
+    let (op, fin) = if rng.chance(5, 6) {
+        match rng.below(10) {
+            0 => (rf::OP_PING, true),
+            1 => (rf::OP_PONG, true),
+            2 => (rf::OP_CLOSE, true),
+            _ if *in_frag => (rf::OP_CONT, rng.chance(1, 2)),
+            _ => (if rng.chance(1, 2) { rf::OP_TEXT } else { rf::OP_BINARY }, rng.chance(2, 3)),
+        }
+    } else {
+        ((rng.next() % 16) as u8, rng.chance(1, 2))
+    };
+    if op == rf::OP_CONT && fin {
+        *in_frag = false;
+    } else if (op == rf::OP_TEXT || op == rf::OP_BINARY) && !fin {
+        *in_frag = true;
+    }
+    let len = match rng.below(16) {
+        0 => 125,
+        1 => 126,
+        2 => 127,
+        3 => rng.range(128, 400),
+        4 | 5 => 0,
+        6 => 2,
+        _ => rng.range(0, 40),
+    };
+    let payload: Vec<u8> = if op == rf::OP_CLOSE && len >= 2 {
+        let mut p = (*rng.pick(&[1000u16, 1001, 1005, 1006, 1015, 2999, 3000, 4999, 0, 65535])).to_be_bytes().to_vec();
+        p.extend((0..len - 2).map(|_| *rng.pick(b"abc \xc3\xa9")));
+        p
+    } else if op == rf::OP_TEXT {
+        (0..len).map(|_| *rng.pick(b"hello, world \xe2\x82\xac")).collect()
+    } else {
+        rng.bytes(len)
+    };
+    let mask = if server != rng.chance(1, 20) { Some([rng.next() as u8, rng.next() as u8, rng.next() as u8, rng.next() as u8]) } else { None };
+    let enc = match rng.below(20) {
+        0 => rf::LenEnc::Ext16,
+        1 => rf::LenEnc::Ext64,
+        _ => rf::LenEnc::Minimal,
+    };
+    rf::encode(&rf::RFrame { fin, rsv: if rng.chance(1, 30) { rng.range(1, 7) as u8 } else { 0 }, opcode: op, mask, payload }, enc)
+}
+
+fn ws_seed(rng: &mut Rng, server: bool) -> Vec<u8> {
+    let mut out = vec![];
+    let mut in_frag = false;
+    for _ in 0..rng.range(1, 5) {
+        out.extend(ws_frame(rng, server, &mut in_frag));
+    }
+    out
+}
+
+/// 64-bit / 16-bit / 7-bit length fields at their extremes, with and without payload behind
+const WS_LENS: &[u64] = &[0, 1, 125, 126, 127, 128, 65_535, 65_536, 65_537, (1 << 31) - 1, 1 << 31, (1 << 32) - 1, 1 << 32, (1 << 63) - 1, 1 << 63, u64::MAX - 13, u64::MAX - 1, u64::MAX];
+
+fn ws_length_grid() -> Vec<(String, Vec<u8>)> {
+    let mut out = vec![];
+    for &op in &[rf::OP_CONT, rf::OP_TEXT, rf::OP_BINARY, rf::OP_CLOSE, rf::OP_PING, rf::OP_PONG, 3u8, 15] {
+        for &len in WS_LENS {
+            for enc in [rf::LenEnc::Minimal, rf::LenEnc::Ext16, rf::LenEnc::Ext64] {
+                for masked in [true, false] {
+                    for tail in [0usize, 1, 200] {
+                        let mut b = rf::header(true, 0, op, if masked { Some([1, 2, 3, 4]) } else { None }, len, enc);
+                        b.extend(std::iter::repeat(0x41).take(tail));
+                        out.push((format!("len-grid/{}", if len > 1 << 20 { "huge" } else { "small" }), b));
+                    }
+                }
+            }
+        }
+    }
+    out
+}
+
+// ------------------------------------------------------------------------------------------------
+// router + Path<T> / Query<T> deserialisation (no runtime)
+// ------------------------------------------------------------------------------------------------
+
+#[derive(Deserialize, Debug)]
+#[allow(dead_code)]
+struct PNameId {
+    name: String,
+    id: u32,
+}
+#[derive(Deserialize, Debug)]
+#[allow(dead_code)]
+struct PAb {
+    a: String,
+    b: Option<i64>,
+}
+#[derive(Deserialize, Debug)]
+#[serde(rename_all = "lowercase")]
+#[allow(dead_code)]
+enum Color {
+    Red,
+    Green,
+    Blue,
+}
+#[derive(Deserialize, Debug)]
+#[allow(dead_code)]
+struct QMain {
+    id: u32,
+    name: String,
+}
+#[derive(Deserialize, Debug)]
+#[allow(dead_code)]
+struct QOpt {
+    id: Option<i64>,
+    big: Option<u64>,
+    small: Option<u8>,
+    f: Option<f64>,
+    flag: Option<bool>,
+    c: Option<char>,
+    color: Option<Color>,
+    #[serde(default)]
+    name: String,
+}
+#[derive(Deserialize, Debug)]
+#[allow(dead_code)]
+struct QFlat {
+    id: i8,
+    #[serde(flatten)]
+    rest: HashMap<String, String>,
+}
+
+const ROUTER_PATTERNS: &[&str] = &["/a/{v}", "/b/{a}/{b}", "/c/{name}/{id}", "/t/{tail}*", "/r/{x:\\d+}/{y:[a-z]*}", "/s/{sx}", "/{a}/{b}/{c}/{d}/{e}/{f}", "/u/{v:.*}", "/static/path"];
+
+thread_local! {
+    static RDEFS: Vec<actix_router::ResourceDef> = {
+        let mut v: Vec<actix_router::ResourceDef> = ROUTER_PATTERNS.iter().map(|p| actix_router::ResourceDef::new(*p)).collect();
+        v.push(actix_router::ResourceDef::prefix("/s/{sx}"));
+        v.push(actix_router::ResourceDef::prefix("/a"));
+        v.push(actix_router::ResourceDef::new(["/m1/{id}", "/m2/{id}/{k}", "/a/{v}/{w}"]));
+        v.push(actix_router::ResourceDef::prefix(["/p1/{x}", "/{x}/p2"]));
+        v.push(actix_router::ResourceDef::root_prefix("{lang}/docs"));
+        v
+    };
+}
+
+fn load_all<T: actix_router::ResourcePath>(p: &actix_router::Path<T>) -> String {
+    let mut o = String::new();
+    macro_rules! l {
+        ($t:ty, $n:expr) => {
+            o.push_str(if p.load::<$t>().is_ok() { concat!($n, "+") } else { concat!($n, "-") });
+        };
+    }
+    l!(u8, "u8");
+    l!(u32, "u32");
+    l!(i64, "i64");
+    l!(String, "s");
+    l!((String, u32), "t2");
+    l!((String, String, String), "t3");
+    l!(PNameId, "st");
+    l!(PAb, "ab");
+    l!(Color, "e");
+    l!(Vec<String>, "vs");
+    l!(Vec<u32>, "vu");
+    l!(HashMap<String, String>, "m");
+    l!(f64, "f");
+    l!(bool, "b");
+    l!(char, "c");
+    l!((), "unit");
+    o
+}
+
+const URI_SEEDS: &[&str] = &[
+    "/a/123",
+    "/a/255",
+    "/b/name/42",
+    "/c/alice/7",
+    "/t/x/y/z.txt",
+    "/r/123/abc",
+    "/s/one/two/end",
+    "/s/one/two",
+    "/n//v1//x/w1/",
+    "/n2/v1/x//w1",
+    "/ns//caf%C3%A9//two/",
+    "/ns/a//b///c/d//",
+    "/n3//v//w//x",
+    "/m2/5/k",
+    "/m1/77",
+    "/a/%31%32",
+    "/b/na%2Fme/42",
+    "/a/caf%C3%A9",
+    "/a/red",
+    "/b/%E2%82%AC/4294967295",
+    "/one/two/three/four/five/six",
+    "/u/any/thing?x=1",
+    "/static/path",
+    "/a/1?id=5&name=x",
+    "/q?id=5&name=alice&big=18446744073709551615&small=255&f=1.5&flag=true&c=x&color=red",
+    "/q?id=-9223372036854775808&name=%E2%82%AC+x&a=1&a=2&b[]=3",
+    "/q?id=1&name=a%26b%3Dc&extra=&=novalue&novalue",
+    "/en/docs/index",
+    "/g?id=1\nHost: a.test:8443",
+    "https://a.test/g\nHost: b.test\nX-K: v",
+    "/g\nHost: [::1]:99999",
+];
+
+fn exec_router(c: &Case) -> Res {
+    let uri = clean_uri(&c.data);
+    let Ok(u) = Uri::try_from(uri.as_str()) else { return Res::Out("uri-rejected".into()) };
+    let r = guard(|| {
+        RDEFS.with(|defs| {
+            let mut matched = 0u32;
+            let mut loads = String::new();
+            let mut bad = None;
+            for (i, d) in defs.iter().enumerate() {
+                let mut p = actix_router::Path::new(actix_router::Url::new(u.clone()));
+                if !d.capture_match_info(&mut p) {
+                    continue;
+                }
+                matched |= 1 << i;
+                let whole = p.as_str().len();
+                let un = p.unprocessed().len();
+                let mut total = 0;
+                for (k, v) in p.iter() {
+                    total += v.len();
+                    if p.get(k).is_none() {
+                        bad = Some(format!("segment {k} listed but get() is None"));
+                    }
+                }
+                if un > whole || total > whole * (p.segment_count().max(1)) {
+                    bad = Some(format!("unprocessed {un} / captured {total} bytes of a {whole}-byte path"));
+                }
+                let _ = p.query("v").len();
+                // a scope-like second match on the rest
+                if d.is_prefix() {
+                    for d2 in defs.iter().take(3) {
+                        let mut p2 = p.clone();
+                        if d2.capture_match_info(&mut p2) {
+                            let _ = load_all(&p2);
+                        }
+                    }
+                }
+                if loads.is_empty() {
+                    loads = load_all(&p);
+                }
+                let _ = d.find_match(u.path());
+                let _ = d.is_match(u.path());
+            }
+            (matched, loads, bad)
+        })
+    });
+    match r {
+        Err(p) => Res::Panic(p),
+        Ok((_, _, Some(bad))) => fail("ill-formed-output", "router/captures", bad),
+        Ok((m, loads, None)) => Res::Out(format!("m{m:x}:{loads}")),
+    }
+}
+
+fn query_all(qs: &str) -> String {
+    let mut o = String::new();
+    macro_rules! q {
+        ($t:ty, $n:expr) => {
+            o.push_str(match web::Query::<$t>::from_query(qs) {
+                Ok(_) => concat!($n, "+"),
+                Err(_) => concat!($n, "-"),
+            });
+        };
+    }
+    q!(QMain, "main");
+    q!(QOpt, "opt");
+    q!(QFlat, "flat");
+    q!(HashMap<String, String>, "map");
+    q!(Vec<(String, String)>, "pairs");
+    q!(HashMap<String, u64>, "mapu");
+    q!(Vec<(String, i32)>, "pairsi");
+    q!((), "unit");
+    o
+}
+
+fn exec_query(c: &Case) -> Res {
+    // the query reaches the extractor only through a parsed request target
+    let mut d = b"/q?".to_vec();
+    d.extend_from_slice(&c.data);
+    let uri = clean_uri(&d);
+    let r = guard(|| with_req(0, &uri, vec![], false, |req| {
+        let a = query_all(req.query_string());
+        let b = ready(web::Query::<QMain>::extract(req)).map(|r| r.is_ok()).unwrap_or(false);
+        let c2 = ready(web::Query::<QOpt>::extract(req)).map(|r| r.is_ok()).unwrap_or(false);
+        format!("{a}{}{}", if b { "X" } else { "x" }, if c2 { "O" } else { "o" })
+    }));
+    match r {
+        Ok(o) => Res::Out(o),
+        Err(p) => Res::Panic(p),
+    }
+}
+
+// ------------------------------------------------------------------------------------------------
+// multipart
+// ------------------------------------------------------------------------------------------------
+
+struct ChunkStream(VecDeque<Bytes>, bool);
+
+impl Stream for ChunkStream {
+    type Item = Result<Bytes, PayloadError>;
+    fn poll_next(mut self: Pin<&mut Self>, _: &mut Context<'_>) -> Poll<Option<Self::Item>> {
+        match self.0.pop_front() {
+            Some(b) => Poll::Ready(Some(Ok(b))),
+            None if self.1 => {
+                self.1 = false;
+                Poll::Ready(Some(Err(PayloadError::Incomplete(None))))
+            }
+            None => Poll::Ready(None),
+        }
+    }
+}
+
+#[derive(Default)]
+struct MpObs {
+    fields: usize,
+    bytes: usize,
+    chunks: u64,
+    end: String,
+}
+
+async fn mp_consume(mut mp: actix_multipart::Multipart, obs: Rc<RefCell<MpObs>>, chunk_cap: u64, drop_mode: u32) {
+    loop {
+        if obs.borrow().fields >= 64 {
+            obs.borrow_mut().end = "cap-fields".into();
+            return;
+        }
+        match mp.next().await {
+            None => {
+                obs.borrow_mut().end = "clean".into();
+                return;
+            }
+            Some(Err(e)) => {
+                obs.borrow_mut().end = format!("err-{}", variant(&e));
+                return;
+            }
+            Some(Ok(mut field)) => {
+                let nf = {
+                    let mut o = obs.borrow_mut();
+                    o.fields += 1;
+                    o.fields
+                };
+                let _ = (field.name().map(|s| s.len()), field.content_type().map(|m| m.essence_str().len()), field.content_disposition().map(|cd| cd.get_filename().map(|f| f.len())), field.headers().len());
+                if drop_mode == 1 && nf % 2 == 1 {
+                    continue;
+                }
+                loop {
+                    {
+                        let mut o = obs.borrow_mut();
+                        o.chunks += 1;
+                        if o.chunks > chunk_cap {
+                            o.end = "cap-chunks".into();
+                            return;
+                        }
+                    }
+                    match field.next().await {
+                        None => break,
+                        Some(Ok(b)) => {
+                            obs.borrow_mut().bytes += b.len();
+                            if drop_mode == 2 {
+                                break;
+                            }
+                        }
+                        Some(Err(e)) => {
+                            obs.borrow_mut().end = format!("field-err-{}", variant(&e));
+                            return;
+                        }
+                    }
+                }
+            }
+        }
+    }
+}
+
+fn exec_multipart(c: &Case) -> Res {
+    let chunks: VecDeque<Bytes> = c.segments().into_iter().map(Bytes::copy_from_slice).collect();
+    let nchunks = chunks.len() as u64;
+    let stream = ChunkStream(chunks, c.v & 4 != 0);
+    let ct = clean_value(&c.aux);
+    let obs = Rc::new(RefCell::new(MpObs::default()));
+    let drop_mode = c.v & 3;
+    let built = guard(|| {
+        if c.v & 8 != 0 {
+            let hs = if c.aux.is_empty() { vec![] } else { vec![(wh::CONTENT_TYPE, ct.clone())] };
+            let boxed: Pin<Box<dyn Stream<Item = Result<Bytes, PayloadError>>>> = Box::pin(stream);
+            let mut pl = Payload::from(boxed);
+            with_req(1, "/", hs, false, |req| ready(actix_multipart::Multipart::from_request(req, &mut pl)).and_then(|r| r.ok()))
+        } else {
+            let mut h = HeaderMap::new();
+            if !c.aux.is_empty() {
+                h.insert(wh::CONTENT_TYPE, ct.clone());
+            }
+            Some(actix_multipart::Multipart::new(&h, stream))
+        }
+    });
+    let mp = match built {
+        Err(p) => return Res::Panic(p),
+        Ok(None) => return Res::Out("extractor-not-ready".into()),
+        Ok(Some(mp)) => mp,
+    };
+    let chunk_cap = 4 * (c.data.len() as u64 + nchunks) + 64;
+    let poll_cap = 8 * (c.data.len() as u64 + nchunks) + 256;
+    let mut d = Driven::new(mp_consume(mp, obs.clone(), chunk_cap, drop_mode));
+    let mut stalled = false;
+    loop {
+        if d.done() {
+            break;
+        }
+        match guard(|| d.poll_if_woken()) {
+            Err(p) => return Res::Panic(p),
+            Ok(true) => {
+                if d.polls > poll_cap {
+                    return fail("unbounded-loop", "multipart/self-wake", format!("consumer still waking itself after {} polls on a {}-byte body whose stream is always ready", d.polls, c.data.len()));
+                }
+            }
+            Ok(false) => {
+                // Pending with no wake-up although the body stream never returned Pending: C15's
+                // business (hang); counted here
+                stalled = true;
+                break;
+            }
+        }
+    }
+    drop(d);
+    let o = obs.borrow();
+    if o.end == "cap-chunks" {
+        return fail("unbounded-loop", "multipart/chunks", format!("field stream yielded more than {chunk_cap} items for a {}-byte body", c.data.len()));
+    }
+    if o.bytes > c.data.len() {
+        return fail("ill-formed-output", "multipart/delivered-more-than-fed", format!("{} content bytes from a {}-byte body", o.bytes, c.data.len()));
+    }
+    Res::Out(format!("{}:{}f", if stalled { "stalled" } else { o.end.as_str() }, o.fields.min(3)))
+}
+
+fn multipart_seed(rng: &mut Rng) -> (Vec<u8>, Vec<u8>) {
+    let (boundary, quoted) = mg::gen_boundary(rng);
+    let subtype: &'static str = *rng.pick(&["form-data", "form-data", "mixed", "related"]);
+    let mut parts = vec![];
+    for _ in 0..rng.below(4) {
+        let class = *rng.pick(mg::CONTENT_CLASSES);
+        let (with_cl, max_len) = (rng.chance(1, 3), *rng.pick(&[0usize, 8, 40, 300]));
+        parts.push(mg::gen_part(rng, &boundary, &mg::PartOpts { subtype, with_cl, class, max_len }));
+    }
+    let b = mg::Body { boundary, subtype, preamble: vec![], parts, final_crlf: rng.chance(3, 4), epilogue: vec![], quote_boundary: quoted };
+    (mg::encode(&b).bytes, mg::content_type_header(&b).into_bytes())
+}
+
+const MULTIPART_FIXED: &[(&str, &str)] = &[
+    ("multipart/form-data; boundary=abc", "--abc\r\nContent-Disposition: form-data; name=\"f\"; filename=\"a.txt\"\r\nContent-Type: text/plain\r\nContent-Length: 5\r\n\r\nhello\r\n--abc\r\nContent-Disposition: form-data; name=\"g\"\r\n\r\n\r\n--abc--\r\n"),
+    ("multipart/mixed; boundary=\"b 1\"", "preamble\r\n--b 1\r\nX-A: 1\r\n\r\ndata\r\n--b 1--"),
+    ("multipart/form-data; charset=utf-8; boundary=----WebKitFormBoundary7MA4YWxkTrZu0gW", "------WebKitFormBoundary7MA4YWxkTrZu0gW\r\nContent-Disposition: form-data; name=\"n\"\r\n\r\n12\r\n------WebKitFormBoundary7MA4YWxkTrZu0gW--\r\n"),
+];
+
+// ------------------------------------------------------------------------------------------------
+// HTTP/1 codecs driven directly (need an actix System: the codecs' config owns a date service)
+// ------------------------------------------------------------------------------------------------
+
+const H1_FIXED: &[&[u8]] = &[
+    b"GET / HTTP/1.1\r\nHost: a\r\n\r\n",
+    b"POST /p?x=1 HTTP/1.1\r\nHost: a\r\nContent-Length: 5\r\n\r\nhello",
+    b"POST /c HTTP/1.1\r\nHost: a\r\nTransfer-Encoding: chunked\r\n\r\n5\r\nhello\r\n3;ext=1\r\nabc\r\n0\r\nTrailer: x\r\n\r\n",
+    b"GET /ws HTTP/1.1\r\nHost: a\r\nUpgrade: websocket\r\nConnection: Upgrade\r\nSec-WebSocket-Key: dGhlIHNhbXBsZSBub25jZQ==\r\nSec-WebSocket-Version: 13\r\n\r\n\x81\x85\x01\x02\x03\x04ignor",
+    b"PUT /e HTTP/1.1\r\nHost: a\r\nExpect: 100-continue\r\nContent-Length: 3\r\n\r\nabc",
+    b"GET /old HTTP/1.0\r\nConnection: keep-alive\r\n\r\n",
+    b"HEAD /h HTTP/1.1\r\nHost: a\r\nConnection: close\r\n\r\n",
+    b"OPTIONS * HTTP/1.1\r\nHost: a\r\n\r\n",
+    b"CONNECT a:443 HTTP/1.1\r\nHost: a:443\r\n\r\ntunnel bytes",
+    b"GET http://a/abs?q HTTP/1.1\r\nHost: b\r\nAccept: */*\r\nCookie: a=b; c=d\r\n\r\n",
+    b"GET /1 HTTP/1.1\r\nHost: a\r\n\r\nPOST /2 HTTP/1.1\r\nHost: a\r\nContent-Length: 2\r\n\r\nhiGET /3 HTTP/1.1\r\nHost: a\r\n\r\n",
+    b"GET /h2c HTTP/1.1\r\nHost: a\r\nConnection: Upgrade, HTTP2-Settings\r\nUpgrade: h2c\r\nHTTP2-Settings: AAMAAABkAAQCAAAAAAIAAAAA\r\n\r\n",
+    b"PRI * HTTP/2.0\r\n\r\nSM\r\n\r\n",
+    b"POST /d HTTP/1.1\r\nHost: a\r\nContent-Length: 3\r\nContent-Length: 3\r\n\r\nabc",
+    b"GET /fold HTTP/1.1\r\nHost: a\r\nX-Long: one\r\n two\r\n\tthree\r\n\r\n",
+    b"POST /z HTTP/1.1\r\nHost: a\r\nTransfer-Encoding: gzip, chunked\r\nContent-Encoding: gzip\r\n\r\n1\r\nx\r\n0\r\n\r\n",
+    b"POST /big HTTP/1.1\r\nHost: a\r\nTransfer-Encoding: chunked\r\n\r\nA\r\n0123456789\r\n00000a;q=\"x\\\"y\"\r\n0123456789\r\n0\r\n\r\n",
+    b"DELETE /x HTTP/1.1\r\nHost: a\r\nContent-Length: 0\r\nConnection: keep-alive, close\r\n\r\n",
+];
+
+fn h1_seed(rng: &mut Rng) -> Vec<u8> {
+    if rng.chance(1, 2) {
+        return rng.pick(H1_FIXED).to_vec();
+    }
+    let o = gh1::ReqOpts { force_method: None, allow_http10: true, allow_big: false, allow_head: true, expect_continue: true };
+    let mut out = vec![];
+    for i in 0..rng.range(1, 3) {
+        out.extend(gh1::good_request(rng, i, &o));
+        if out.len() > 6000 {
+            break;
+        }
+    }
+    out
+}
+
+fn exec_h1codec(c: &Case) -> Res {
+    let mut codec = h1::Codec::default();
+    let mut buf = BytesMut::new();
+    let mut out = BytesMut::new();
+    let mut heads = 0u32;
+    let mut body = 0usize;
+    let mut hs_seen = "";
+    let r = decode_loop(&mut codec, c, &mut buf, |codec, it, _| {
+        match it {
+            h1::Message::Item(req) => {
+                heads += 1;
+                // what an application commonly does with a head: look at the framing helpers,
+                // try the WebSocket handshake, answer with values taken from the request
+                let step = guard(|| {
+                    let head = req.head();
+                    let _ = (head.connection_type(), head.upgrade(), req.chunked().is_ok(), req.content_type().len(), req.encoding().is_ok(), req.mime_type().is_ok());
+                    let hs = ws::handshake(head).map(|mut b| b.finish()).is_ok();
+                    let mut rb = Response::build(if hs { StatusCode::SWITCHING_PROTOCOLS } else { StatusCode::OK });
+                    for (i, (n, v)) in head.headers().iter().enumerate().take(8) {
+                        rb.insert_header((format!("x-echo-{i}"), v.clone()));
+                        if let Ok(hn) = HeaderName::from_bytes(format!("x-{}", n.as_str()).as_bytes()) {
+                            rb.append_header((hn, v.clone()));
+                        }
+                    }
+                    if let Ok(v) = HeaderValue::from_str(&head.uri.to_string()) {
+                        rb.insert_header(("x-uri", v));
+                    }
+                    let resp = rb.finish().drop_body();
+                    let size = match heads % 3 {
+                        0 => BodySize::Sized(2),
+                        1 => BodySize::Stream,
+                        _ => BodySize::None,
+                    };
+                    let e1 = codec.encode(h1::Message::Item((resp, size)), &mut out).is_ok();
+                    let mut e2 = true;
+                    if size != BodySize::None {
+                        e2 &= codec.encode(h1::Message::Chunk(Some(Bytes::from_static(b"ok"))), &mut out).is_ok();
+                        e2 &= codec.encode(h1::Message::Chunk(None), &mut out).is_ok();
+                    }
+                    (hs, e1 && e2)
+                });
+                match step {
+                    Err(p) => return Err(Res::Panic(p)),
+                    Ok((hs, _)) => {
+                        if hs {
+                            hs_seen = "+ws";
+                        }
+                    }
+                }
+            }
+            h1::Message::Chunk(Some(b)) => body += b.len(),
+            h1::Message::Chunk(None) => {}
+        }
+        Ok(true)
+    });
+    match r {
+        Err(res) => res,
+        Ok((_, err)) => {
+            if body > c.data.len() {
+                return fail("ill-formed-output", "h1codec/delivered-more-than-fed", format!("{body} body bytes from {} input bytes", c.data.len()));
+            }
+            if heads > 0 && !out.starts_with(b"HTTP/1.") {
+                return fail("ill-formed-output", "h1codec/encoder", format!("encoded response does not start with a status line: {}", esc_short(&out, 80)));
+            }
+            Res::Out(format!("{}:{}h{}{}", match &err { Some(e) => format!("err-{}", variant(e)), None => "open".into() }, heads.min(3), if body > 0 { "+body" } else { "" }, hs_seen))
+        }
+    }
+}
+
+const RESP_FIXED: &[&[u8]] = &[
+    b"HTTP/1.1 200 OK\r\nContent-Length: 5\r\n\r\nhello",
+    b"HTTP/1.1 200 OK\r\nTransfer-Encoding: chunked\r\n\r\n5\r\nhello\r\n1f;x\r\n0123456789012345678901234567890\r\n0\r\n\r\n",
+    b"HTTP/1.1 204 No Content\r\nServer: x\r\n\r\n",
+    b"HTTP/1.1 304 Not Modified\r\nETag: \"x\"\r\nContent-Length: 10\r\n\r\n",
+    b"HTTP/1.0 200 OK\r\n\r\nbody-until-close",
+    b"HTTP/1.1 100 Continue\r\n\r\nHTTP/1.1 200 OK\r\nContent-Length: 0\r\n\r\n",
+    b"HTTP/1.1 101 Switching Protocols\r\nUpgrade: websocket\r\nConnection: upgrade\r\nSec-WebSocket-Accept: s3pPLMBiTxaQ9kYGzzhZRbK+xOo=\r\n\r\n\x81\x02hi",
+    b"HTTP/1.1 200 OK\r\nConnection: close\r\nContent-Type: text/plain; charset=utf-8\r\nSet-Cookie: a=b; Path=/\r\nSet-Cookie: c=d\r\n\r\nabc",
+    b"HTTP/1.1 301 Moved Permanently\r\nLocation: http://x/y\r\nContent-Length: 0\r\n\r\n",
+    b"HTTP/1.1 200 \r\nContent-Length: 1\r\n\r\nx",
+    b"HTTP/1.1 999 Weird\r\nContent-Length: 2\r\nContent-Encoding: gzip\r\n\r\n\x1f\x8b",
+    b"HTTP/1.1 200 OK\r\nContent-Length: 1\r\n\r\naHTTP/1.1 404 Not Found\r\nTransfer-Encoding: chunked\r\n\r\n0\r\n\r\n",
+    b"HTTP/1.1 200 OK\r\nContent-Length: 3\r\nTransfer-Encoding: chunked\r\n\r\n3\r\nabc\r\n0\r\n\r\n",
+    b"HTTP/1.1 206 Partial Content\r\nContent-Range: bytes 0-1/10\r\nContent-Length: 2\r\nKeep-Alive: timeout=5, max=100\r\nConnection: keep-alive\r\n\r\nab",
+];
+
+fn exec_client(c: &Case) -> Res {
+    let mut codec = h1::ClientCodec::default();
+    // the request that was "sent": decides HEAD handling
+    let mut head = RequestHead::default();
+    head.method = match c.v % 3 {
+        0 => Method::GET,
+        1 => Method::HEAD,
+        _ => Method::POST,
+    };
+    let mut sent = BytesMut::new();
+    if let Err(p) = guard(|| codec.encode(h1::Message::Item((RequestHeadType::Owned(head), BodySize::None)), &mut sent)) {
+        return Res::Panic(p);
+    }
+    enum St {
+        Head(h1::ClientCodec),
+        Body(h1::ClientPayloadCodec),
+    }
+    let mut st = St::Head(codec);
+    let mut buf = BytesMut::new();
+    let cap = c.data.len() as u64 + 16;
+    let (mut heads, mut body, mut steps) = (0u32, 0usize, 0u64);
+    let mut end = "open".to_string();
+    let segs = c.segments();
+    let nseg = segs.len();
+    'o: for (si, seg) in segs.into_iter().enumerate() {
+        buf.extend_from_slice(seg);
+        let last = si + 1 == nseg;
+        loop {
+            steps += 1;
+            if steps > 2 * cap + nseg as u64 {
+                return fail("unbounded-loop", "client/decode", format!("{steps} decode calls for {} input bytes", c.data.len()));
+            }
+            let before = buf.len();
+            st = match st {
+                St::Head(mut cd) => match guard(|| cd.decode(&mut buf)) {
+                    Err(p) => return Res::Panic(p),
+                    Ok(Err(e)) => {
+                        end = format!("head-err-{}", variant(&e));
+                        break 'o;
+                    }
+                    Ok(Ok(Some(h))) => {
+                        heads += 1;
+                        let _ = (h.status, h.version, h.headers().len(), cd.keep_alive(), cd.upgrade());
+                        match cd.message_type() {
+                            h1::MessageType::None => St::Head(cd),
+                            _ => St::Body(cd.into_payload_codec()),
+                        }
+                    }
+                    Ok(Ok(None)) => {
+                        if buf.len() == before {
+                            if last {
+                                end = format!("{}eof-in-head", if buf.is_empty() { "clean-" } else { "" });
+                            }
+                            st = St::Head(cd);
+                            break;
+                        }
+                        St::Head(cd)
+                    }
+                },
+                St::Body(mut pc) => {
+                    let r = if last && buf.is_empty() { guard(|| pc.decode_eof(&mut buf)) } else { guard(|| pc.decode(&mut buf)) };
+                    match r {
+                        Err(p) => return Res::Panic(p),
+                        Ok(Err(e)) => {
+                            end = format!("body-err-{}", variant(&e));
+                            break 'o;
+                        }
+                        Ok(Ok(Some(Some(b)))) => {
+                            body += b.len();
+                            St::Body(pc)
+                        }
+                        Ok(Ok(Some(None))) => {
+                            let _ = pc.keep_alive();
+                            St::Head(pc.into_message_codec())
+                        }
+                        Ok(Ok(None)) => {
+                            if buf.len() == before {
+                                if last {
+                                    end = "eof-in-body".into();
+                                }
+                                st = St::Body(pc);
+                                break;
+                            }
+                            St::Body(pc)
+                        }
+                    }
+                }
+            };
+        }
+    }
+    if body > c.data.len() {
+        return fail("ill-formed-output", "client/delivered-more-than-fed", format!("{body} body bytes from {} input bytes", c.data.len()));
+    }
+    Res::Out(format!("{end}:{}h{}", heads.min(3), if body > 0 { "+body" } else { "" }))
+}
+
+// ------------------------------------------------------------------------------------------------
+// a real App: routing + Path<T> / Query<T> extraction, and actix-files
+// ------------------------------------------------------------------------------------------------
+
+thread_local! {
+    static OMNI: RefCell<String> = const { RefCell::new(String::new()) };
+}
+
+async fn omni(req: HttpRequest) -> HttpResponse {
+    let mut o = String::new();
+    o.push_str(req.match_pattern().as_deref().unwrap_or("?"));
+    o.push(':');
+    macro_rules! p {
+        ($t:ty, $n:expr) => {
+            o.push_str(match web::Path::<$t>::extract(&req).await {
+                Ok(_) => concat!($n, "+"),
+                Err(_) => concat!($n, "-"),
+            });
+        };
+    }
+    p!(u8, "u8");
+    p!(u32, "u32");
+    p!(i64, "i64");
+    p!(String, "s");
+    p!((String, u32), "t2");
+    p!((String, String), "ss");
+    p!(PNameId, "st");
+    p!(Color, "e");
+    p!(Vec<String>, "vs");
+    p!(HashMap<String, String>, "m");
+    let mi = req.match_info();
+    let mut n = 0;
+    for (k, v) in mi.iter() {
+        n += k.len() + v.len();
+    }
+    let _ = (mi.unprocessed().len(), mi.as_str().len(), n, req.match_name());
+    o.push(':');
+    o.push_str(match web::Query::<QMain>::extract(&req).await {
+        Ok(_) => "q+",
+        Err(_) => "q-",
+    });
+    o.push_str(match web::Query::<QOpt>::extract(&req).await {
+        Ok(_) => "o+",
+        Err(_) => "o-",
+    });
+    OMNI.with(|c| *c.borrow_mut() = o);
+    HttpResponse::Ok().finish()
+}
+
+struct FileRoot {
+    dir: PathBuf,
+}
+
+impl FileRoot {
+    fn create(ctx: &Ctx) -> std::io::Result<FileRoot> {
+        let parent = match std::env::current_dir() {
+            Ok(d) if d.join("target").is_dir() => d.join("target").join("c19-tmp"),
+            _ => std::env::temp_dir().join("avmon-c19-tmp"),
+        };
+        let dir = parent.join(format!("avmon-c19-{}-{}-{}", std::process::id(), ctx.shard, ctx.layer));
+        let _ = std::fs::remove_dir_all(&dir);
+        std::fs::create_dir_all(dir.join("sub"))?;
+        std::fs::write(dir.join("empty.txt"), b"")?;
+        std::fs::write(dir.join("one.txt"), b"1")?;
+        let big: Vec<u8> = (0..100_000u32).map(|i| b"0123456789abcdef"[(i % 16) as usize]).collect();
+        std::fs::write(dir.join("big.bin"), &big)?;
+        std::fs::write(dir.join("sub").join("index.html"), b"<p>index</p>")?;
+        std::fs::write(dir.join("na\u{ef}ve \"q\".txt"), b"odd name")?;
+        Ok(FileRoot { dir })
+    }
+}
+
+impl Drop for FileRoot {
+    fn drop(&mut self) {
+        let _ = std::fs::remove_dir_all(&self.dir);
+    }
+}
+
+const FILE_LENS: &[(&str, u64)] = &[("empty.txt", 0), ("one.txt", 1), ("big.bin", 100_000)];
+
+async fn make_app(root: PathBuf) -> impl Service<actix_http::Request, Response = ServiceResponse, Error = actix_web::Error> {
+    use actix_web::middleware::{NormalizePath, TrailingSlash};
+    let (r0, r1, r2) = (root.clone(), root.clone(), root.clone());
+    test::init_service(
+        App::new()
+            .service(web::resource("/a/{v}").to(omni))
+            .service(web::resource("/b/{a}/{b}").to(omni))
+            .service(web::resource("/c/{name}/{id}").to(omni))
+            .service(web::resource("/t/{tail:.*}").to(omni))
+            .service(web::resource("/r/{x:\\d+}/{y:[a-z]*}").to(omni))
+            .service(web::resource(["/m1/{id}", "/m2/{id}/{k}"]).to(omni))
+            .service(web::resource("/q").to(omni))
+            .service(web::resource("/g").guard(actix_web::guard::Host("a.test").scheme("https")).to(omni))
+            .service(web::resource("/g").guard(actix_web::guard::Host("b.test")).guard(actix_web::guard::Header("x-k", "v")).to(omni))
+            .service(web::scope("/s/{sx}").service(web::resource("/{sy}/end").to(omni)).service(web::resource("/{sy}").to(omni)))
+            .service(web::scope("/n").wrap(NormalizePath::trim()).service(web::resource("/{v}/x/{w}").to(omni)))
+            .service(web::scope("/n2").wrap(NormalizePath::new(TrailingSlash::Always)).service(web::resource("/{v}/x/{w}/").to(omni)))
+            .service(web::scope("/ns/{sx}").wrap(NormalizePath::trim()).service(web::resource("/{sy}").to(omni)).service(web::resource("/{sy}/{tail:.*}").to(omni)))
+            .service(web::scope("/n3").wrap(NormalizePath::new(TrailingSlash::MergeOnly)).service(web::resource("/{v}/{w:.*}").to(omni)))
+            .service(web::resource("/nf/empty").to(move |req: HttpRequest| {
+                let p = r0.join("empty.txt");
+                async move { actix_files::NamedFile::open(p).map(|f| f.use_etag(true).into_response(&req)) }
+            }))
+            .service(web::resource("/nf/one").to(move |req: HttpRequest| {
+                let p = r1.join("one.txt");
+                async move { actix_files::NamedFile::open(p).map(|f| f.use_last_modified(false).prefer_utf8(false).into_response(&req)) }
+            }))
+            .service(web::resource("/nf/big").to(move |req: HttpRequest| {
+                let p = r2.join("big.bin");
+                async move { actix_files::NamedFile::open(p).map(|f| f.read_mode_threshold(1 << 20).into_response(&req)) }
+            }))
+            .service(actix_files::Files::new("/f", &root).index_file("index.html").use_hidden_files())
+            .service(actix_files::Files::new("/l", &root).show_files_listing().redirect_to_slash_directory())
+            .default_service(web::to(omni)),
+    )
+    .await
+}
+
+/// A future whose every poll runs under `report::guard`.
+struct GuardFut<F>(Pin<Box<F>>);
+
+impl<F: Future> Future for GuardFut<F> {
+    type Output = Result<F::Output, String>;
+    fn poll(mut self: Pin<&mut Self>, cx: &mut Context<'_>) -> Poll<Self::Output> {
+        let inner = &mut self.0;
+        match guard(|| inner.as_mut().poll(cx)) {
+            Ok(Poll::Ready(v)) => Poll::Ready(Ok(v)),
+            Ok(Poll::Pending) => Poll::Pending,
+            Err(m) => Poll::Ready(Err(m)),
+        }
+    }
+}
+
+async fn exec_app_one<S>(app: &S, c: &Case) -> Res
+where
+    S: Service<actix_http::Request, Response = ServiceResponse, Error = actix_web::Error>,
+{
+    let (uri, hs) = parse_reqtext(&c.data);
+    let mut tr = TestRequest::get().uri(&uri);
+    for (n, v) in hs {
+        tr = tr.append_header((n, v));
+    }
+    OMNI.with(|o| o.borrow_mut().clear());
+    let sres = match app.call(tr.to_request()).await {
+        Ok(r) => r,
+        Err(e) => return Res::Out(format!("svc-err-{}", e.as_response_error().status_code().as_u16())),
+    };
+    let (_, res) = sres.into_parts();
+    let status = res.status().as_u16();
+    let omni = OMNI.with(|o| o.borrow().clone());
+    if c.ep == "web" {
+        return Res::Out(format!("{status}:{omni}"));
+    }
+    // files: stream the body, check the declared framing
+    let cr: Vec<String> = res.headers().get_all("content-range").map(|v| String::from_utf8_lossy(v.as_bytes()).into_owned()).collect();
+    // the file length is only known to the oracle when the last segment names one of the files
+    let upath = uri.split('?').next().unwrap_or("");
+    let file_len = FILE_LENS.iter().find(|(n, _)| upath.ends_with(&format!("/{n}")) || upath == format!("/nf/{}", &n[..n.len() - 4].trim_end_matches('.'))).map(|x| x.1);
+    let mut body = res.into_body();
+    let declared = match body.size() {
+        BodySize::Sized(n) => Some(n),
+        _ => None,
+    };
+    let (mut got, mut chunks, mut berr) = (0u64, 0u32, false);
+    loop {
+        match std::future::poll_fn(|cx| Pin::new(&mut body).poll_next(cx)).await {
+            None => break,
+            Some(Err(_)) => {
+                berr = true;
+                break;
+            }
+            Some(Ok(b)) => {
+                got += b.len() as u64;
+                chunks += 1;
+                if chunks > 4096 || got > 4_000_000 {
+                    return fail("unbounded-loop", "files/body", format!("body exceeds every file served: {got} bytes in {chunks} chunks"));
+                }
+            }
+        }
+    }
+    if !berr {
+        if let Some(d) = declared {
+            if d != got {
+                return fail("ill-formed-output", "files/declared-size", format!("status {status}: declared {d} bytes, body yielded {got}"));
+            }
+        }
+    }
+    if status == 206 {
+        let ok = cr.len() == 1 && {
+            let s = cr[0].strip_prefix("bytes ").unwrap_or("");
+            match s.split_once('/').and_then(|(r, l)| r.split_once('-').map(|(a, b)| (a.parse::<u64>(), b.parse::<u64>(), l.parse::<u64>()))) {
+                Some((Ok(a), Ok(b), Ok(l))) => a <= b && b < l && (berr || got == b - a + 1) && file_len.map(|fl| fl == l).unwrap_or(true),
+                _ => false,
+            }
+        };
+        if !ok {
+            return fail("ill-formed-output", "files/content-range", format!("206 with Content-Range {cr:?}, body {got} bytes, file length {file_len:?}"));
+        }
+    }
+    Res::Out(format!("{status}{}{}", if berr { ":body-err" } else { "" }, if cr.is_empty() { "" } else { ":cr" }))
+}
+
+/// Run a batch against one App instance (rebuilt after a panic).
+fn exec_app_batch(root: PathBuf, cases: Vec<Case>) -> Vec<Res> {
+    run_virtual(async move {
+        let mut app = make_app(root.clone()).await;
+        let mut out = Vec::with_capacity(cases.len());
+        for c in &cases {
+            watch_begin(c);
+            let r = GuardFut(Box::pin(exec_app_one(&app, c))).await;
+            watch_end();
+            out.push(match r {
+                Ok(r) => r,
+                Err(p) => {
+                    app = make_app(root.clone()).await;
+                    Res::Panic(p)
+                }
+            });
+        }
+        out
+    })
+}
+
+const FILES_SEEDS: &[&str] = &[
+    "/f/empty.txt\nRange: bytes=0-0",
+    "/f/empty.txt\nRange: bytes=-5",
+    "/f/one.txt\nRange: bytes=0-0, -1",
+    "/f/one.txt\nRange: bytes=1-",
+    "/f/big.bin\nRange: bytes=99990-100010",
+    "/f/big.bin\nRange: bytes=0-9, 50000-50009, -10\nIf-Range: \"abc\"",
+    "/f/big.bin\nIf-None-Match: \"x\", W/\"y\"\nIf-Modified-Since: Sun, 06 Nov 1994 08:49:37 GMT",
+    "/f/one.txt\nIf-Match: *\nIf-Unmodified-Since: Fri, 31 Dec 9999 23:59:59 GMT\nRange: bytes=0-",
+    "/nf/empty\nRange: bytes=-1\nIf-None-Match: *",
+    "/nf/one\nRange: bytes=0-18446744073709551615",
+    "/nf/big\nRange: bytes=65536-\nAccept-Encoding: gzip, br",
+    "/f/sub/\nRange: bytes=2-3",
+    "/l/sub\nAccept: text/html",
+    "/f/na%C3%AFve%20%22q%22.txt\nRange: bytes=1-2",
+    "/l/\nRange: bytes=0-1",
+    "/f/big.bin\nRange: bytes=0-0,1-1,2-2,3-3,4-4,5-5,6-6,7-7,8-8,9-9",
+];
+
+// ------------------------------------------------------------------------------------------------
+// the HTTP/1 server connection through the real dispatcher
+// ------------------------------------------------------------------------------------------------
+
+fn exec_h1(c: &Case) -> Res {
+    let cfg = if c.v & 1 == 0 { ConnCfg::persistent() } else { ConnCfg::no_timers() };
+    let mut sc = Scenario::new(cfg, vec![], 0);
+    let mut prog = Prog::default();
+    prog.read = match (c.v >> 1) % 4 {
+        0 | 1 => ReadMode::All,
+        2 => ReadMode::Ignore,
+        _ => ReadMode::Chunks(1),
+    };
+    sc.default_prog = Some(prog);
+    for s in c.segments() {
+        sc.acts.push(Act::Push(s.to_vec()));
+    }
+    sc.acts.push(Act::Eof);
+    let oc = match guard(|| run_scenario(&sc)) {
+        Err(p) => return Res::Panic(p),
+        Ok(oc) => oc,
+    };
+    if oc.livelock {
+        return fail("unbounded-loop", "h1/self-wake", format!("connection still waking itself {} polls after the peer's EOF (done={})", sc.poll_cap, oc.done));
+    }
+    let fed = c.data.len() as u64;
+    let delivered: u64 = oc.reqs.iter().map(|r| r.body.len() as u64).sum();
+    if delivered > fed {
+        return fail("ill-formed-output", "h1/delivered-more-than-fed", format!("{delivered} body bytes reached handlers from {fed} input bytes"));
+    }
+    let methods: Vec<String> = oc.reqs.iter().map(|r| r.method.clone()).collect();
+    let rp = h1_resp::parse_responses(&oc.out, &|i| methods.get(i).cloned(), true);
+    if let Some((at, why)) = rp.malformed_at {
+        return fail("ill-formed-output", "h1/response-stream", format!("what the dispatcher wrote stops parsing as responses at offset {at} ({why}): {}", esc_short(&oc.out, 300)));
+    }
+    let last = rp.resps.last().map(|r| r.status).unwrap_or(0);
+    Res::Out(format!(
+        "{}:{}r:{}:{}{}",
+        match &oc.result {
+            Some(Ok(())) => "ok".to_string(),
+            Some(Err(e)) => format!("err-{}", variant(e)),
+            None => if oc.stalled { "pending-quiet".into() } else { "pending".into() },
+        },
+        oc.reqs.len().min(3),
+        last,
+        if oc.closed { "closed" } else { "open" },
+        if oc.spins > 0 { ":spun" } else { "" }
+    ))
+}
+
+// ------------------------------------------------------------------------------------------------
+// dispatch, recording
+// ------------------------------------------------------------------------------------------------
+
+fn exec_pure(c: &Case) -> Res {
+    match c.ep.as_str() {
+        "h1" => exec_h1(c),
+        "ws" => exec_ws(c),
+        "wsparse" => exec_wsparse(c),
+        "wshs" => exec_wshs(c),
+        "multipart" => exec_multipart(c),
+        "router" => exec_router(c),
+        "query" => exec_query(c),
+        "conninfo" => exec_conninfo(c),
+        "cookies" => exec_cookies(c),
+        "msg" => exec_msg(c),
+        e if e.starts_with("hdr:") => exec_hdr(c),
+        _ => Res::Out("unknown-entry-point".into()),
+    }
+}
+
+/// All cases of a batch belong to the same entry point.
+fn exec_batch(cases: Vec<Case>, root: &Option<FileRoot>) -> Vec<Res> {
+    let Some(ep) = cases.first().map(|c| c.ep.clone()) else { return vec![] };
+    match ep.as_str() {
+        "web" | "files" => match root {
+            Some(r) => exec_app_batch(r.dir.clone(), cases),
+            None => cases.iter().map(|_| Res::Out("no-file-root".into())).collect(),
+        },
+        "h1codec" | "client" => run_virtual(async move {
+            cases
+                .iter()
+                .map(|c| {
+                    watch_begin(c);
+                    let r = guard(|| if c.ep == "client" { exec_client(c) } else { exec_h1codec(c) }).unwrap_or_else(Res::Panic);
+                    watch_end();
+                    r
+                })
+                .collect()
+        }),
+        _ => cases
+            .iter()
+            .map(|c| {
+                watch_begin(c);
+                let mut r = guard(|| exec_pure(c)).unwrap_or_else(Res::Panic);
+                watch_end();
+                if c.ep == "h1" {
+                    if let (Some(m), Res::Out(_)) = (swallowed_panic(), &r) {
+                        r = Res::Panic(format!("(inside a spawned task) {m}"));
+                    }
+                }
+                r
+            })
+            .collect(),
+    }
+}
+
+fn family(ep: &str) -> &str {
+    if ep.starts_with("hdr:") {
+        "hdr"
+    } else {
+        ep
+    }
+}
+
+struct Tally {
+    families: BTreeSet<String>,
+    sampled: BTreeSet<String>,
+}
+
+fn record(rep: &mut Reporter, t: &mut Tally, c: &Case, r: Res) {
+    rep.eval();
+    rep.count(&format!("ep:{}", c.ep), 1);
+    rep.count(&format!("mut:{}", c.mc.trim_end_matches('+')), 1);
+    rep.count(&format!("cuts:{}", cut_class(c)), 1);
+    rep.max("input_len", c.data.len() as u64);
+    t.families.insert(family(&c.ep).to_string());
+    match r {
+        Res::Out(o) => {
+            let coarse = o.split(':').next().unwrap_or("").split('/').take(if family(&c.ep) == "msg" { 2 } else { 3 }).collect::<Vec<_>>().join("/");
+            let coarse = if family(&c.ep) == "web" || family(&c.ep) == "router" || family(&c.ep) == "query" { coarse.chars().take(6).collect::<String>() } else { coarse };
+            rep.count(&format!("out:{}:{}", family(&c.ep), coarse), 1);
+            rep.sig(&format!("{}|{}|{}", c.ep, c.mc, o));
+            if t.sampled.insert(format!("{}|{}", family(&c.ep), coarse)) && t.sampled.len() < 400 {
+                rep.sample(family(&c.ep), json!({"ep": c.ep, "mutation": c.mc, "cuts": cut_class(c), "input": esc_short(&c.data, 160), "outcome": o}));
+            }
+        }
+        Res::Panic(p) => {
+            rep.violation("panic", &format!("{} in {}", c.ep, panic_site(&p)), &format!("{p}\n    {}", c.show()), c.replay());
+        }
+        Res::Fail { class, what, detail } => {
+            rep.violation(class, &what, &format!("{detail}\n    {}", c.show()), c.replay());
+        }
+    }
+}
+
+// ------------------------------------------------------------------------------------------------
+// workload
+// ------------------------------------------------------------------------------------------------
+
+/// (entry point, weight in the random phase, needs things Miri cannot do)
+fn entry_points() -> Vec<(String, u32, bool)> {
+    let mut v: Vec<(String, u32, bool)> = vec![
+        ("h1".into(), 6, true),
+        ("h1codec".into(), 12, false),
+        ("client".into(), 12, false),
+        ("ws".into(), 10, false),
+        ("wsparse".into(), 4, false),
+        ("wshs".into(), 3, false),
+        ("multipart".into(), 8, false),
+        ("router".into(), 6, false),
+        ("web".into(), 3, true),
+        ("query".into(), 5, false),
+        ("conninfo".into(), 3, false),
+        ("cookies".into(), 3, false),
+        ("msg".into(), 2, false),
+        ("files".into(), 2, true),
+    ];
+    HDRS.with(|h| {
+        for x in h.iter() {
+            v.push((format!("hdr:{}", x.0), 1, false));
+        }
+    });
+    v
+}
+
+/// fixed seed corpus of an entry point: (data, aux)
+fn fixed_seeds(ep: &str) -> Vec<(Vec<u8>, Vec<u8>)> {
+    let s = |xs: &[&str]| xs.iter().map(|x| (x.as_bytes().to_vec(), vec![])).collect::<Vec<_>>();
+    match ep {
+        "h1" | "h1codec" => H1_FIXED.iter().map(|x| (x.to_vec(), vec![])).collect(),
+        "client" => RESP_FIXED.iter().map(|x| (x.to_vec(), vec![])).collect(),
+        "wshs" => s(WSHS_SEEDS),
+        "conninfo" => s(CONNINFO_SEEDS),
+        "cookies" => s(COOKIE_SEEDS),
+        "msg" => s(MSG_SEEDS),
+        "files" => s(FILES_SEEDS),
+        "router" | "web" => s(URI_SEEDS),
+        "query" => URI_SEEDS.iter().filter_map(|u| u.split_once('?')).map(|(_, q)| (q.as_bytes().to_vec(), vec![])).collect(),
+        "multipart" => MULTIPART_FIXED.iter().map(|(ct, b)| (b.as_bytes().to_vec(), ct.as_bytes().to_vec())).collect(),
+        e if e.starts_with("hdr:") => HDRS.with(|h| h.iter().find(|x| x.0 == &e[4..]).map(|x| s(x.3)).unwrap_or_default()),
+        _ => vec![],
+    }
+}
+
+fn is_stream(ep: &str) -> bool {
+    matches!(ep, "h1" | "h1codec" | "client" | "ws" | "wsparse" | "multipart")
+}
+
+fn max_len_for(ep: &str, miri: bool) -> usize {
+    if miri {
+        return 600;
+    }
+    match ep {
+        "h1" | "h1codec" | "client" => 160_000,
+        "ws" | "wsparse" | "multipart" => 80_000,
+        "router" | "web" | "query" => 70_000,
+        "files" => 20_000,
+        _ => 12_000,
+    }
+}
+
+fn gen_case(rng: &mut Rng, ep: &str, miri: bool) -> Case {
+    let fixed = fixed_seeds(ep);
+    let pick_fixed = |rng: &mut Rng| -> (Vec<u8>, Vec<u8>) {
+        if fixed.is_empty() {
+            (vec![], vec![])
+        } else {
+            rng.pick(&fixed).clone()
+        }
+    };
+    let server = rng.chance(1, 2);
+    let (seed, aux) = match ep {
+        "h1" | "h1codec" => (h1_seed(rng), vec![]),
+        "ws" | "wsparse" => (ws_seed(rng, server), vec![]),
+        "multipart" if rng.chance(3, 4) => multipart_seed(rng),
+        _ => pick_fixed(rng),
+    };
+    let (other, _) = match ep {
+        "ws" | "wsparse" => (ws_seed(rng, server), vec![]),
+        _ => pick_fixed(rng),
+    };
+    let m = Mut { pct: matches!(ep, "router" | "web" | "query"), max_len: max_len_for(ep, miri), other: &other };
+    let (mut data, mut mc) = mutate(rng, &seed, &m);
+    let mut aux = aux;
+    if ep == "multipart" && rng.chance(1, 3) {
+        // mutate the Content-Type (boundary parameter) instead of / as well as the body
+        let keep_body = rng.chance(1, 2);
+        let (a, mca) = mutate(rng, &aux, &Mut { pct: false, max_len: 4000, other: b"multipart/form-data; boundary=zz" });
+        aux = a;
+        if keep_body {
+            data = seed.clone();
+            mc = format!("ct-{mca}");
+        } else {
+            mc = format!("{mc}&ct");
+        }
+    }
+    let mut c = Case::new(ep, &mc, data);
+    c.aux = aux;
+    c.v = match ep {
+        "ws" | "wsparse" => (if server { 0 } else { 1 }) | ((rng.below(WS_SIZES.len()) as u32) << 1),
+        _ => rng.below(16) as u32,
+    };
+    if is_stream(ep) {
+        c.cuts = gen_cuts(rng, c.data.len());
+        if ep == "h1" && c.cuts.len() > 300 {
+            // one poll round per segment: keep the scripted connection runs short
+            c.cuts.truncate(300);
+        }
+    }
+    c
+}
+
+/// Deterministic grid: every numeric position of every fixed seed × every extreme value.
+fn numeric_grid(eps: &[(String, u32, bool)], keep: &dyn Fn(u64) -> bool) -> Vec<Case> {
+    let mut out = vec![];
+    let mut idx = 0u64;
+    for (ep, _, _) in eps {
+        for (si, (seed, aux)) in fixed_seeds(ep).into_iter().enumerate() {
+            for hexm in [false, true] {
+                if hexm && !matches!(ep.as_str(), "h1" | "h1codec" | "client" | "router" | "web" | "query") {
+                    continue;
+                }
+                let table = if hexm { HEXNUMS } else { NUMS };
+                for (ri, (s, e)) in digit_runs(&seed, hexm).into_iter().enumerate() {
+                    // only the first digit runs of the protocol-version literals are boring
+                    for (xi, x) in table.iter().enumerate() {
+                        idx += 1;
+                        if !keep(idx) {
+                            continue;
+                        }
+                        let mut c = Case::new(ep, if hexm { "grid-hex" } else { "grid-dec" }, splice(&seed, s, e, x.as_bytes()));
+                        c.aux = aux.clone();
+                        c.v = ((si + ri + xi) % 16) as u32;
+                        if is_stream(ep) && c.data.len() <= 400 && ep != "h1" {
+                            let mut b = c.clone();
+                            b.cuts = (1..b.data.len()).collect();
+                            out.push(b);
+                        }
+                        out.push(c);
+                    }
+                }
+            }
+            // numeric positions of a multipart Content-Type
+            if ep == "multipart" {
+                for x in NUMS {
+                    idx += 1;
+                    if !keep(idx) {
+                        continue;
+                    }
+                    let mut c = Case::new(ep, "grid-ct", seed.clone());
+                    c.aux = [aux.as_slice(), b"; q=", x.as_bytes()].concat();
+                    out.push(c);
+                }
+            }
+        }
+    }
+    out
+}
+
+/// Lengths around every representation limit the code is known to have (u8, u16 indices of the
+/// router, http's 65 534 / 65 535 limits, the 131 072-byte head buffer, the 70-byte boundary).
+fn length_boundaries(eps: &[(String, u32, bool)], max: usize) -> Vec<Case> {
+    let has = |e: &str| eps.iter().any(|x| x.0 == e);
+    let mut out = vec![];
+    let lens: Vec<usize> = [255usize, 256, 4096, 32_767, 32_768, 65_279, 65_280].iter().copied().chain(65_520..=65_537).filter(|l| *l <= max).collect();
+    for ep in ["router", "web"] {
+        if !has(ep) {
+            continue;
+        }
+        for prefix in ["/a/", "/b/x/", "/t/", "/n/v1/x/", "/n2/v1/x/", "/n3/v/", "/ns/q/", "/ns/q//", "/s/one/", "/q?name=", "/m2/5/"] {
+            for &l in &lens {
+                for (tail, fill) in [("", b'a'), ("/", b'a'), ("//", b'a'), ("%C3%A9", b'a'), ("", b'/'), ("/x", b'%')] {
+                    if l < prefix.len() + tail.len() {
+                        continue;
+                    }
+                    let mut d = prefix.as_bytes().to_vec();
+                    d.extend(std::iter::repeat(fill).take(l - prefix.len() - tail.len()));
+                    d.extend_from_slice(tail.as_bytes());
+                    out.push(Case::new(ep, "len-boundary", d));
+                }
+            }
+        }
+    }
+    for ep in ["h1", "h1codec", "client"] {
+        if !has(ep) {
+            continue;
+        }
+        let start: &[u8] = if ep == "client" { b"HTTP/1.1 200 OK\r\n" } else { b"POST /x HTTP/1.1\r\nHost: a\r\n" };
+        let end: &[u8] = b"Content-Length: 2\r\n\r\nhi";
+        for l in [255usize, 256, 8191, 8192, 32_768, 65_534, 65_535, 65_536, 65_537, 130_900, 131_072, 131_100].into_iter().filter(|l| *l <= max) {
+            // field name, field value, one line without colon
+            for shape in 0..4 {
+                let mut d = start.to_vec();
+                match shape {
+                    0 => {
+                        d.extend(std::iter::repeat(b'n').take(l));
+                        d.extend_from_slice(b": v\r\n");
+                    }
+                    1 => {
+                        d.extend_from_slice(b"x-long: ");
+                        d.extend(std::iter::repeat(b'v').take(l));
+                        d.extend_from_slice(b"\r\n");
+                    }
+                    2 => {
+                        // many small fields summing up to l bytes
+                        let mut i = 0;
+                        while d.len() < l {
+                            d.extend_from_slice(format!("h{i}: {i}\r\n").as_bytes());
+                            i += 1;
+                        }
+                    }
+                    _ => {
+                        // the target / reason phrase itself
+                        d = if ep == "client" { b"HTTP/1.1 200 ".to_vec() } else { b"GET /".to_vec() };
+                        d.extend(std::iter::repeat(b'r').take(l));
+                        d.extend_from_slice(if ep == "client" { b"\r\n" } else { b" HTTP/1.1\r\nHost: a\r\n" });
+                    }
+                }
+                d.extend_from_slice(end);
+                let mut c = Case::new(ep, "len-boundary", d);
+                c.v = (l % 7) as u32;
+                if shape == 1 {
+                    c.cuts = vec![start.len() + 4, l / 2, l];
+                }
+                out.push(c);
+            }
+        }
+        // chunk-size line and chunk-extension lengths
+        for l in [15usize, 16, 17, 18, 255, 4096, 65_536].into_iter().filter(|l| *l <= max) {
+            let mut d = if ep == "client" { b"HTTP/1.1 200 OK\r\nTransfer-Encoding: chunked\r\n\r\n".to_vec() } else { b"POST /c HTTP/1.1\r\nHost: a\r\nTransfer-Encoding: chunked\r\n\r\n".to_vec() };
+            let mut e = d.clone();
+            d.extend(std::iter::repeat(b'0').take(l));
+            d.extend_from_slice(b"2\r\nhi\r\n0\r\n\r\n");
+            e.extend_from_slice(b"2;");
+            e.extend(std::iter::repeat(b'e').take(l));
+            e.extend_from_slice(b"\r\nhi\r\n0\r\n\r\n");
+            out.push(Case::new(ep, "len-boundary", d));
+            out.push(Case::new(ep, "len-boundary", e));
+        }
+    }
+    if has("multipart") {
+        for l in [1usize, 69, 70, 71, 72, 255, 256, 4096, 70_000].into_iter().filter(|l| *l <= max) {
+            let b = "b".repeat(l);
+            for quoted in [false, true] {
+                let mut c = Case::new("multipart", "len-boundary", format!("--{b}\r\nContent-Disposition: form-data; name=\"f\"\r\n\r\nhello\r\n--{b}--\r\n").into_bytes());
+                c.aux = if quoted { format!("multipart/form-data; boundary=\"{b}\"") } else { format!("multipart/form-data; boundary={b}") }.into_bytes();
+                c.cuts = vec![l / 2 + 1, l + 3];
+                out.push(c);
+            }
+            // long part-header line and many part headers
+            let mut c = Case::new("multipart", "len-boundary", format!("--x\r\nContent-Disposition: form-data; name=\"{b}\"\r\nX-{b}: 1\r\n\r\nhello\r\n--x--\r\n").into_bytes());
+            c.aux = b"multipart/form-data; boundary=x".to_vec();
+            out.push(c);
+        }
+    }
+    out
+}
+
+fn run_cases(cases: Vec<Case>, root: &Option<FileRoot>, rep: &mut Reporter, t: &mut Tally) {
+    let keep = cases.clone();
+    let res = exec_batch(cases, root);
+    for (c, r) in keep.iter().zip(res) {
+        record(rep, t, c, r);
+    }
+}
+
+pub fn run(ctx: &Ctx, rep: &mut Reporter) {
+    let miri = ctx.is_miri();
+    if !miri {
+        start_watchdog(Duration::from_secs(if ctx.layer == "asan" { 60 } else { 20 }));
+    }
+    let root = if miri {
+        None
+    } else {
+        match FileRoot::create(ctx) {
+            Ok(r) => Some(r),
+            Err(e) => {
+                rep.inconclusive(&format!("cannot create the temp file tree: {e}"));
+                return;
+            }
+        }
+    };
+    let mut t = Tally { families: BTreeSet::new(), sampled: BTreeSet::new() };
+
+    if let Some(rp) = &ctx.replay {
+        let c = Case::from_json(rp);
+        run_cases(vec![c], &root, rep, &mut t);
+        rep.sig("replay");
+        rep.sig("replay2");
+        return;
+    }
+
+    let eps: Vec<(String, u32, bool)> = entry_points().into_iter().filter(|e| !(miri && e.2)).collect();
+
+    // ---- phase A: numeric grid (exhaustive over the fixed corpus)
+    let stride = if miri { 199 } else { 1 };
+    let grid = numeric_grid(&eps, &|i| i % stride == 0 && ctx.mine(i / stride));
+    let mut complete = true;
+    let mut by_ep: Vec<(String, Vec<Case>)> = vec![];
+    for c in grid {
+        match by_ep.iter_mut().find(|(e, _)| *e == c.ep) {
+            Some((_, v)) => v.push(c),
+            None => by_ep.push((c.ep.clone(), vec![c])),
+        }
+    }
+    for (_, cases) in by_ep {
+        for chunk in cases.chunks(64) {
+            if ctx.out_of_time() {
+                complete = false;
+                break;
+            }
+            run_cases(chunk.to_vec(), &root, rep, &mut t);
+        }
+    }
+    if !miri {
+        rep.exhaustive("numeric-positions-of-fixed-corpus x extremes", complete);
+    }
+
+    // ---- phase A2: lengths around representation limits
+    let mut by_ep: Vec<(String, Vec<Case>)> = vec![];
+    for (i, c) in length_boundaries(&eps, if miri { 300 } else { usize::MAX }).into_iter().enumerate() {
+        if !ctx.mine(i as u64) || (miri && i % 5 != 0) {
+            continue;
+        }
+        match by_ep.iter_mut().find(|(e, _)| *e == c.ep) {
+            Some((_, v)) => v.push(c),
+            None => by_ep.push((c.ep.clone(), vec![c])),
+        }
+    }
+    for (_, cases) in by_ep {
+        for chunk in cases.chunks(32) {
+            if ctx.out_of_time() {
+                break;
+            }
+            run_cases(chunk.to_vec(), &root, rep, &mut t);
+        }
+    }
+
+    // ---- phase B: WebSocket length forms at their extremes
+    let mut k = 0u64;
+    let mut batch = vec![];
+    for (label, bytes) in ws_length_grid() {
+        for v in 0..(2 * WS_SIZES.len() as u32) {
+            for ep in ["ws", "wsparse"] {
+                k += 1;
+                if !ctx.mine(k) || (miri && (k / ctx.nshards) % 331 != 0) {
+                    continue;
+                }
+                let mut c = Case::new(ep, &label, bytes.clone());
+                c.v = v;
+                if k % 3 == 0 {
+                    c.cuts = (1..c.data.len().min(16)).collect();
+                }
+                batch.push(c);
+            }
+        }
+    }
+    for chunk in batch.chunks(256) {
+        if ctx.out_of_time() {
+            break;
+        }
+        run_cases(chunk.to_vec(), &root, rep, &mut t);
+    }
+
+    // ---- phase C: random structured mutation
+    let total_w: u32 = eps.iter().map(|e| e.1).sum();
+    let bsize = if miri { 4 } else { 32 };
+    // Miri: a fixed round (the decoders and the router get the larger part), interleaved so that a
+    // budget stop still leaves every entry point exercised
+    let mut miri_round: Vec<String> = vec![];
+    for rep_i in 0..12 {
+        for e in &eps {
+            let heavy = matches!(e.0.as_str(), "h1codec" | "client" | "ws" | "wsparse" | "router" | "multipart" | "query" | "wshs");
+            if heavy || rep_i < 2 {
+                miri_round.push(e.0.clone());
+            }
+        }
+    }
+    let nb = if miri { miri_round.len() as u64 } else { ctx.share(300_000, 12_000_000) / bsize };
+    for b in 0..nb {
+        if ctx.out_of_time() {
+            rep.count("random_phase_stopped_by_budget", 1);
+            break;
+        }
+        let mut rng = Rng::derive(ctx.seed, 1900, b * ctx.nshards + ctx.shard);
+        let ep = if miri {
+            miri_round[b as usize].clone()
+        } else {
+            let mut w = rng.below(total_w as usize) as u32;
+            let mut pick = eps[0].0.clone();
+            for e in &eps {
+                if w < e.1 {
+                    pick = e.0.clone();
+                    break;
+                }
+                w -= e.1;
+            }
+            pick
+        };
+        // one App (and its intentionally leaked route names) serves a larger batch
+        let n = if !miri && matches!(ep.as_str(), "web" | "files") { 4 * bsize } else { bsize };
+        let cases: Vec<Case> = (0..n).map(|_| gen_case(&mut rng, &ep, miri)).collect();
+        run_cases(cases, &root, rep, &mut t);
+    }
+
+    rep.max("entry_point_families_seen", t.families.len() as u64);
+    if t.families.len() < if miri { 6 } else { 14 } {
+        rep.inconclusive(&format!("only {} entry-point families were exercised", t.families.len()));
+    }
+    let _ = (Version::HTTP_11, MUT_CLASSES);
 }
